@@ -1,9 +1,11 @@
-import Bng.Proof.AcctDrain
+import Bng.Proof.AcctRetry
 /-
-  no_dup: a session that was started after the latest crash never has two Stops accepted (session ids not
-  reused).  The invariant says where a further Stop of a session could still come from — the session in
-  memory, its session file, a Stop record in the retry map or in pending.json — and that once a Stop of the
-  session has been accepted none of them is left, except those the call in progress is about to remove.
+  no_dup: once a Stop of a session has been ACKNOWLEDGED to the client, the server never accepts another Stop of
+  that session, unless a crash happened after the session was started (session ids not reused).  The
+  invariant says where a further Stop of a session could still come from — the session in memory, its
+  session file, a Stop record in the retry map or in pending.json — and that once a Stop of the session
+  has been acknowledged none of them is left, except those a frame in progress (of the API thread or of the
+  processor thread) is about to remove.  Both threads run: every interleaving of `tick` and `ptick`.
 -/
 namespace Bng.Acct
 open Bng AMap
@@ -14,7 +16,8 @@ def AS (σ : State) (s : Nat) : Prop := (lookup σ.vol.sessions s).isSome = true
 def FS (σ : State) (s : Nat) : Prop := (lookup σ.dur.files s).isSome = true
 def PS (σ : State) (s : Nat) : Prop := ∃ p ∈ σ.vol.pending, isStop p s
 def QS (σ : State) (s : Nat) : Prop := ∃ ps, σ.dur.pfile = some ps ∧ ∃ p ∈ ps, isStop p s
-def stopCount (log : List Rec) (s : Nat) : Nat := (log.filter (isStopOf s)).length
+/-- a Stop of the session was acknowledged to the client -/
+def ackd (σ : State) (s : Nat) : Prop := s ∈ σ.ackedStops
 
 /-- the frame is about to remove the session file of `s` -/
 def cleans : Option Frame → Nat → Prop
@@ -25,6 +28,9 @@ def cleans : Option Frame → Nat → Prop
   | some (.recRemove k _ _ _), s => k = s
   | _, _ => False
 
+/-- one of the two threads is about to remove the session file of `s` -/
+def cl (σ : State) (s : Nat) : Prop := cleans σ.vol.pc s ∨ cleans σ.vol.ppc s
+
 /-- the sessions the shutdown drain has still to send a Stop for -/
 def pendingDrain : Option Frame → Option (List Nat)
   | some (.drainSend k rest) => some (k :: rest)
@@ -34,10 +40,10 @@ def pendingDrain : Option Frame → Option (List Nat)
 
 def drainedBy (pc : Option Frame) (s : Nat) : Prop := ∃ l, pendingDrain pc = some l ∧ s ∉ l
 
-/-- why a session still in memory will not get another Stop: StopSession is about to delete it, or the
-    shutdown drain has dealt with it (the process exits afterwards) -/
-def exA (pc : Option Frame) (s : Nat) (acked : Bool) : Prop :=
-  pc = some (.stopDelete s acked) ∨ drainedBy pc s
+/-- why a session still in memory will not get another Stop: StopSession has sent (or queued) its Stop and is
+    about to delete it, or the shutdown drain has dealt with it (the process exits afterwards) -/
+def exA (pc : Option Frame) (s : Nat) : Prop :=
+  (∃ b, pc = some (.stopDelete s b)) ∨ drainedBy pc s
 
 /-- the recovery procedure will not load a Stop of `s` from pending.json -/
 def covers : Option Frame → Nat → Prop
@@ -56,14 +62,14 @@ def recInfo : Option Frame → Option (List Nat × Option Nat)
 
 /-- the per-session part, for sessions registered after the latest crash -/
 structure NDs (σ : State) (s : Nat) : Prop where
-  a : stopCount σ.log s ≤ 1
+  a : s ∉ σ.dup
   b : ∀ p ∈ σ.vol.pending, ∀ q ∈ σ.vol.pending, isStop p s → isStop q s → p.id = q.id
   c : ∀ ps, σ.dur.pfile = some ps → ∀ p ∈ ps, ∀ q ∈ ps, isStop p s → isStop q s → p.id = q.id
-  d : stopIn σ.log s → ¬ PS σ s
-  e : stopIn σ.log s → FS σ s → cleans σ.vol.pc s
-  f : stopIn σ.log s → AS σ s → exA σ.vol.pc s true
-  g : stopIn σ.log s → QS σ s → covers σ.vol.pc s
-  h : PS σ s → AS σ s → exA σ.vol.pc s false
+  d : ackd σ s → ¬ PS σ s
+  e : ackd σ s → FS σ s → cl σ s
+  f : ackd σ s → AS σ s → exA σ.vol.pc s
+  g : ackd σ s → QS σ s → covers σ.vol.pc s
+  h : PS σ s → AS σ s → exA σ.vol.pc s
   i : PS σ s → QS σ s → covers σ.vol.pc s
   j : AS σ s → ¬ QS σ s
 
@@ -73,67 +79,40 @@ structure ND (σ : State) : Prop where
   r2 : ∀ recd cur, recInfo σ.vol.pc = some (recd, cur) →
     (∀ x ∈ recd, ¬ FS σ x) ∧ (∀ p ∈ σ.vol.pending, ∀ s, isStop p s → s ∈ recd ∨ cur = some s)
   dr : ∀ l, pendingDrain σ.vol.pc = some l → l.Nodup
+  rp : isRec σ.vol.pc → σ.vol.ppc = none
 
-theorem stopCount_zero_iff {log : List Rec} {s : Nat} : stopCount log s = 0 ↔ ¬ stopIn log s := by
-  unfold stopCount stopIn
-  rw [List.length_eq_zero_iff, List.filter_eq_nil_iff]
-  constructor
-  · rintro h ⟨r, hr, hk, hs⟩
-    exact h r hr (by simp [isStopOf, hk, hs])
-  · intro h r hr hc
-    simp only [isStopOf, Bool.and_eq_true, beq_iff_eq] at hc
-    exact h ⟨r, hr, hc.1, hc.2⟩
-
-theorem stopCount_snoc (log : List Rec) (r : Rec) (s : Nat) :
-    stopCount (log ++ [r]) s = stopCount log s + (if isStopOf s r then 1 else 0) := by
-  unfold stopCount
-  rw [List.filter_append, List.length_append]
-  simp only [List.filter_cons, List.filter_nil]
-  split <;> simp
-
-theorem stopIn_snoc {log : List Rec} {r : Rec} {s : Nat} :
-    stopIn (log ++ [r]) s ↔ stopIn log s ∨ (r.kind = .stop ∧ r.sid = s) := by
-  unfold stopIn
-  constructor
-  · rintro ⟨r', hr', h⟩
-    rcases List.mem_append.mp hr' with e | e
-    · exact Or.inl ⟨r', e, h⟩
-    · simp only [List.mem_singleton] at e; subst e; exact Or.inr h
-  · rintro (⟨r', hr', h⟩ | h)
-    · exact ⟨r', List.mem_append_left _ hr', h⟩
-    · exact ⟨r, by simp, h⟩
-
-
-/-- a new Stop record may be queued for a session only when none is queued, none was accepted, and the
+/-- a new Stop record may be queued for a session only when none is queued, none was acknowledged, and the
     frame that follows knows about the session in memory / the copy in pending.json -/
 def NewStop (σ σ' : State) (p : PRec) : Prop :=
-  ¬ PS σ p.req.sid ∧ ¬ stopIn σ.log p.req.sid ∧
-  (AS σ' p.req.sid → exA σ'.vol.pc p.req.sid false) ∧ (QS σ' p.req.sid → covers σ'.vol.pc p.req.sid)
+  ¬ PS σ p.req.sid ∧ ¬ ackd σ p.req.sid ∧
+  (AS σ' p.req.sid → exA σ'.vol.pc p.req.sid) ∧ (QS σ' p.req.sid → covers σ'.vol.pc p.req.sid)
 
-/-- one step that accepts no Stop -/
+/-- one step in which no Stop is acknowledged -/
 theorem nd_gen {σ σ' : State} (h : ND σ)
     (ht : σ'.tainted = σ.tainted)
-    (hL : ∀ s, stopIn σ'.log s ↔ stopIn σ.log s)
-    (hC : ∀ s, stopCount σ'.log s = stopCount σ.log s)
-    (hA : ∀ s, s ∉ σ.tainted → AS σ' s → AS σ s ∨ (¬ stopIn σ.log s ∧ ¬ PS σ' s ∧ ¬ QS σ' s))
-    (hF : ∀ s, s ∉ σ.tainted → FS σ' s → FS σ s ∨ ¬ stopIn σ.log s)
+    (hAck : σ'.ackedStops = σ.ackedStops)
+    (hDup : ∀ s, s ∉ σ.tainted → s ∈ σ'.dup → s ∈ σ.dup)
+    (hA : ∀ s, s ∉ σ.tainted → AS σ' s → AS σ s ∨ (¬ ackd σ s ∧ ¬ PS σ' s ∧ ¬ QS σ' s))
+    (hF : ∀ s, s ∉ σ.tainted → FS σ' s → FS σ s ∨ ¬ ackd σ s)
     (hP : ∀ p ∈ σ'.vol.pending, (∃ q ∈ σ.vol.pending, q.id = p.id ∧ q.req = p.req) ∨ p.req.kind ≠ .stop ∨
       (p.req.sid ∉ σ.tainted → NewStop σ σ' p))
     (hPid : ∀ s, s ∉ σ.tainted → ¬ PS σ s →
       ∀ p ∈ σ'.vol.pending, ∀ q ∈ σ'.vol.pending, isStop p s → isStop q s → p.id = q.id)
     (hQ : ∀ ps', σ'.dur.pfile = some ps' → σ.dur.pfile = some ps' ∨
       ((∀ p ∈ ps', ∃ q ∈ σ.vol.pending, q.id = p.id ∧ q.req = p.req) ∧ σ'.vol.pending = [] ∧ σ'.vol.sessions = []))
-    (hcl : ∀ s, s ∉ σ.tainted → stopIn σ.log s → cleans σ.vol.pc s → cleans σ'.vol.pc s ∨ ¬ FS σ' s)
-    (hex : ∀ s b, exA σ.vol.pc s b → exA σ'.vol.pc s b ∨ ¬ AS σ' s)
+    (hcl : ∀ s, s ∉ σ.tainted → ackd σ s → cl σ s → cl σ' s ∨ ¬ FS σ' s)
+    (hex : ∀ s, exA σ.vol.pc s → exA σ'.vol.pc s ∨ ¬ AS σ' s)
     (hcv : ∀ s, covers σ.vol.pc s → covers σ'.vol.pc s ∨ ¬ QS σ' s)
     (hr1 : isRec σ'.vol.pc → σ'.vol.sessions = [])
     (hr2 : ∀ recd cur, recInfo σ'.vol.pc = some (recd, cur) →
       (∀ x ∈ recd, ¬ FS σ' x) ∧ (∀ p ∈ σ'.vol.pending, ∀ s, isStop p s → s ∈ recd ∨ cur = some s))
-    (hdr : ∀ l, pendingDrain σ'.vol.pc = some l → l.Nodup) : ND σ' := by
-  refine ⟨?_, hr1, hr2, hdr⟩
+    (hdr : ∀ l, pendingDrain σ'.vol.pc = some l → l.Nodup)
+    (hrp : isRec σ'.vol.pc → σ'.vol.ppc = none) : ND σ' := by
+  refine ⟨?_, hr1, hr2, hdr, hrp⟩
   intro s hs
   rw [ht] at hs
   have n := h.per s hs
+  have hL : ackd σ' s ↔ ackd σ s := by unfold ackd; rw [hAck]
   -- an old Stop record of s behind a record of the new map
   have oldOf : ∀ p ∈ σ'.vol.pending, isStop p s → PS σ s →
       ∃ q ∈ σ.vol.pending, q.id = p.id ∧ isStop q s := by
@@ -156,7 +135,7 @@ theorem nd_gen {σ σ' : State} (h : ND σ)
     · obtain ⟨q, hq, _, e2⟩ := h1 p hp
       exact Or.inr ⟨⟨q, hq, by unfold isStop; rw [e2]; exact hst⟩, h2, h3⟩
   constructor
-  · rw [hC]; exact n.a
+  · exact fun hd => n.a (hDup s hs hd)
   · intro p hp q hq h1 h2
     by_cases hPS : PS σ s
     · obtain ⟨p0, hp0, e1, s1⟩ := oldOf p hp h1 hPS
@@ -171,26 +150,26 @@ theorem nd_gen {σ σ' : State} (h : ND σ)
       rw [← e1, ← e2]
       exact n.b p0 hp0 q0 hq0 (by unfold isStop; rw [r1]; exact h1) (by unfold isStop; rw [r2]; exact h2)
   · intro hl hps
-    have hl' := (hL s).mp hl
+    have hl' := hL.mp hl
     rcases psOld hps with h1 | ⟨p, _, hst, hn⟩
     · exact n.d hl' h1
     · unfold NewStop at hn; rw [hst.2] at hn; exact hn.2.1 hl'
   · intro hl hf
-    have hl' := (hL s).mp hl
+    have hl' := hL.mp hl
     rcases hF s hs hf with h1 | h1
     · rcases hcl s hs hl' (n.e hl' h1) with h2 | h2
       · exact h2
       · exact absurd hf h2
     · exact absurd hl' h1
   · intro hl ha
-    have hl' := (hL s).mp hl
+    have hl' := hL.mp hl
     rcases hA s hs ha with h1 | h1
-    · rcases hex s true (n.f hl' h1) with h2 | h2
+    · rcases hex s (n.f hl' h1) with h2 | h2
       · exact h2
       · exact absurd ha h2
     · exact absurd hl' h1.1
   · intro hl hq
-    have hl' := (hL s).mp hl
+    have hl' := hL.mp hl
     rcases qsOld hq with h1 | ⟨h1, _, _⟩
     · rcases hcv s (n.g hl' h1) with h2 | h2
       · exact h2
@@ -199,7 +178,7 @@ theorem nd_gen {σ σ' : State} (h : ND σ)
   · intro hps ha
     rcases psOld hps with h1 | ⟨p, _, hst, hn⟩
     · rcases hA s hs ha with h2 | h2
-      · rcases hex s false (n.h h1 h2) with h3 | h3
+      · rcases hex s (n.h h1 h2) with h3 | h3
         · exact h3
         · exact absurd ha h3
       · exact absurd hps h2.2.1
@@ -220,27 +199,27 @@ theorem nd_gen {σ σ' : State} (h : ND σ)
       · unfold AS at ha; rw [h2] at ha; simp at ha
     · exact h1.2.2 hq
 
-
-/-- one step in which the server accepts the Stop `r` -/
-theorem nd_ack {σ σ' : State} (h : ND σ) (r : Rec) (hk : r.kind = .stop)
+/-- one step in which the Stop of session `k` is acknowledged to the client -/
+theorem nd_ack {σ σ' : State} (h : ND σ) (k : Nat)
     (ht : σ'.tainted = σ.tainted)
-    (hlog : σ'.log = σ.log ++ [r])
-    (hfresh : r.sid ∉ σ.tainted → ¬ stopIn σ.log r.sid)
+    (hAck : σ'.ackedStops = k :: σ.ackedStops)
+    (hDup : ∀ s, s ∉ σ.tainted → s ∈ σ'.dup → s ∈ σ.dup)
     (hA : ∀ s, AS σ' s → AS σ s)
     (hF : ∀ s, FS σ' s → FS σ s)
     (hP : ∀ p ∈ σ'.vol.pending, ∃ q ∈ σ.vol.pending, q.id = p.id ∧ q.req = p.req)
     (hQ : σ'.dur.pfile = σ.dur.pfile)
-    (h0P : r.sid ∉ σ.tainted → ¬ PS σ' r.sid) (h0F : r.sid ∉ σ.tainted → FS σ' r.sid → cleans σ'.vol.pc r.sid)
-    (h0A : r.sid ∉ σ.tainted → AS σ' r.sid → exA σ'.vol.pc r.sid true)
-    (h0Q : r.sid ∉ σ.tainted → QS σ' r.sid → covers σ'.vol.pc r.sid)
-    (hcl : ∀ s, s ∉ σ.tainted → stopIn σ.log s → cleans σ.vol.pc s → cleans σ'.vol.pc s ∨ ¬ FS σ' s)
-    (hex : ∀ s b, exA σ.vol.pc s b → exA σ'.vol.pc s b ∨ ¬ AS σ' s)
+    (h0P : k ∉ σ.tainted → ¬ PS σ' k) (h0F : k ∉ σ.tainted → FS σ' k → cl σ' k)
+    (h0A : k ∉ σ.tainted → AS σ' k → exA σ'.vol.pc k)
+    (h0Q : k ∉ σ.tainted → QS σ' k → covers σ'.vol.pc k)
+    (hcl : ∀ s, s ∉ σ.tainted → ackd σ s → cl σ s → cl σ' s ∨ ¬ FS σ' s)
+    (hex : ∀ s, exA σ.vol.pc s → exA σ'.vol.pc s ∨ ¬ AS σ' s)
     (hcv : ∀ s, covers σ.vol.pc s → covers σ'.vol.pc s ∨ ¬ QS σ' s)
     (hr1 : isRec σ'.vol.pc → σ'.vol.sessions = [])
     (hr2 : ∀ recd cur, recInfo σ'.vol.pc = some (recd, cur) →
       (∀ x ∈ recd, ¬ FS σ' x) ∧ (∀ p ∈ σ'.vol.pending, ∀ s, isStop p s → s ∈ recd ∨ cur = some s))
-    (hdr : ∀ l, pendingDrain σ'.vol.pc = some l → l.Nodup) : ND σ' := by
-  refine ⟨?_, hr1, hr2, hdr⟩
+    (hdr : ∀ l, pendingDrain σ'.vol.pc = some l → l.Nodup)
+    (hrp : isRec σ'.vol.pc → σ'.vol.ppc = none) : ND σ' := by
+  refine ⟨?_, hr1, hr2, hdr, hrp⟩
   intro s hs
   rw [ht] at hs
   have n := h.per s hs
@@ -250,101 +229,126 @@ theorem nd_ack {σ σ' : State} (h : ND σ) (r : Rec) (hk : r.kind = .stop)
     exact ⟨q, hq, by unfold isStop; rw [e2]; exact hps⟩
   have qsOld : QS σ' s → QS σ s := by
     unfold QS; rw [hQ]; exact id
-  by_cases e : s = r.sid
+  have hb : ∀ p ∈ σ'.vol.pending, ∀ q ∈ σ'.vol.pending, isStop p s → isStop q s → p.id = q.id := by
+    intro p hp q hq h1 h2
+    obtain ⟨p0, hp0, e1, r1⟩ := hP p hp
+    obtain ⟨q0, hq0, e2, r2⟩ := hP q hq
+    rw [← e1, ← e2]
+    exact n.b p0 hp0 q0 hq0 (by unfold isStop; rw [r1]; exact h1) (by unfold isStop; rw [r2]; exact h2)
+  have hh : PS σ' s → AS σ' s → exA σ'.vol.pc s := by
+    intro hps ha
+    rcases hex _ (n.h (psOld hps) (hA _ ha)) with h3 | h3
+    · exact h3
+    · exact absurd ha h3
+  have hi : PS σ' s → QS σ' s → covers σ'.vol.pc s := by
+    intro hps hq
+    rcases hcv _ (n.i (psOld hps) (qsOld hq)) with h3 | h3
+    · exact h3
+    · exact absurd hq h3
+  by_cases e : s = k
   · subst e
-    have hno := hfresh hs
-    constructor
-    · rw [hlog, stopCount_snoc]
-      have := stopCount_zero_iff.mpr hno
-      rw [this]
-      split <;> omega
-    · intro p hp q hq h1 h2
-      obtain ⟨p0, hp0, e1, r1⟩ := hP p hp
-      obtain ⟨q0, hq0, e2, r2⟩ := hP q hq
-      rw [← e1, ← e2]
-      exact n.b p0 hp0 q0 hq0 (by unfold isStop; rw [r1]; exact h1) (by unfold isStop; rw [r2]; exact h2)
-    · rw [hQ]; exact n.c
-    · exact fun _ => h0P hs
-    · exact fun _ => h0F hs
-    · exact fun _ => h0A hs
-    · exact fun _ => h0Q hs
-    · intro hps ha
-      rcases hex _ false (n.h (psOld hps) (hA _ ha)) with h3 | h3
-      · exact h3
-      · exact absurd ha h3
-    · intro hps hq
-      rcases hcv _ (n.i (psOld hps) (qsOld hq)) with h3 | h3
-      · exact h3
-      · exact absurd hq h3
-    · intro ha hq
-      exact n.j (hA _ ha) (qsOld hq)
-  · have hL : stopIn σ'.log s ↔ stopIn σ.log s := by
-      rw [hlog, stopIn_snoc]
-      constructor
-      · rintro (h1 | ⟨_, h1⟩)
-        · exact h1
-        · exact absurd h1.symm e
-      · exact Or.inl
-    constructor
-    · rw [hlog, stopCount_snoc]
-      have : isStopOf s r = false := by
-        simp only [isStopOf, Bool.and_eq_false_iff]
-        right
-        simpa using (fun h => e h.symm)
-      rw [this]
-      simpa using n.a
-    · intro p hp q hq h1 h2
-      obtain ⟨p0, hp0, e1, r1⟩ := hP p hp
-      obtain ⟨q0, hq0, e2, r2⟩ := hP q hq
-      rw [← e1, ← e2]
-      exact n.b p0 hp0 q0 hq0 (by unfold isStop; rw [r1]; exact h1) (by unfold isStop; rw [r2]; exact h2)
-    · rw [hQ]; exact n.c
-    · intro hl hps; exact n.d (hL.mp hl) (psOld hps)
+    exact ⟨fun hd => n.a (hDup s hs hd), hb, by rw [hQ]; exact n.c, fun _ => h0P hs, fun _ => h0F hs,
+      fun _ => h0A hs, fun _ => h0Q hs, hh, hi, fun ha hq => n.j (hA _ ha) (qsOld hq)⟩
+  · have hL : ackd σ' s → ackd σ s := by
+      unfold ackd; rw [hAck]
+      intro hm
+      rcases List.mem_cons.mp hm with e' | e'
+      · exact absurd e' e
+      · exact e'
+    refine ⟨fun hd => n.a (hDup s hs hd), hb, by rw [hQ]; exact n.c, ?_, ?_, ?_, ?_, hh, hi,
+      fun ha hq => n.j (hA _ ha) (qsOld hq)⟩
+    · intro hl hps; exact n.d (hL hl) (psOld hps)
     · intro hl hf
-      rcases hcl s hs (hL.mp hl) (n.e (hL.mp hl) (hF s hf)) with h2 | h2
+      rcases hcl s hs (hL hl) (n.e (hL hl) (hF s hf)) with h2 | h2
       · exact h2
       · exact absurd hf h2
     · intro hl ha
-      rcases hex s true (n.f (hL.mp hl) (hA s ha)) with h2 | h2
+      rcases hex s (n.f (hL hl) (hA s ha)) with h2 | h2
       · exact h2
       · exact absurd ha h2
     · intro hl hq
-      rcases hcv s (n.g (hL.mp hl) (qsOld hq)) with h2 | h2
+      rcases hcv s (n.g (hL hl) (qsOld hq)) with h2 | h2
       · exact h2
       · exact absurd hq h2
-    · intro hps ha
-      rcases hex s false (n.h (psOld hps) (hA s ha)) with h3 | h3
-      · exact h3
-      · exact absurd ha h3
-    · intro hps hq
-      rcases hcv s (n.i (psOld hps) (qsOld hq)) with h3 | h3
-      · exact h3
-      · exact absurd hq h3
-    · intro ha hq
-      exact n.j (hA s ha) (qsOld hq)
 
+
+/-! ## API micro-steps: the processor's program counter is untouched -/
+
+theorem cl_api {σ σ' : State} (hppc : σ'.vol.ppc = σ.vol.ppc) {s : Nat}
+    (hA : cleans σ.vol.pc s → cleans σ'.vol.pc s ∨ ¬ FS σ' s) (hc : cl σ s) : cl σ' s ∨ ¬ FS σ' s := by
+  rcases hc with h1 | h1
+  · rcases hA h1 with h2 | h2
+    · exact Or.inl (Or.inl h2)
+    · exact Or.inr h2
+  · exact Or.inl (Or.inr (by rw [hppc]; exact h1))
+
+theorem nd_genA {σ σ' : State} (h : ND σ)
+    (hppc : σ'.vol.ppc = σ.vol.ppc)
+    (ht : σ'.tainted = σ.tainted)
+    (hAck : σ'.ackedStops = σ.ackedStops)
+    (hDup : ∀ s, s ∉ σ.tainted → s ∈ σ'.dup → s ∈ σ.dup)
+    (hA : ∀ s, s ∉ σ.tainted → AS σ' s → AS σ s ∨ (¬ ackd σ s ∧ ¬ PS σ' s ∧ ¬ QS σ' s))
+    (hF : ∀ s, s ∉ σ.tainted → FS σ' s → FS σ s ∨ ¬ ackd σ s)
+    (hP : ∀ p ∈ σ'.vol.pending, (∃ q ∈ σ.vol.pending, q.id = p.id ∧ q.req = p.req) ∨ p.req.kind ≠ .stop ∨
+      (p.req.sid ∉ σ.tainted → NewStop σ σ' p))
+    (hPid : ∀ s, s ∉ σ.tainted → ¬ PS σ s →
+      ∀ p ∈ σ'.vol.pending, ∀ q ∈ σ'.vol.pending, isStop p s → isStop q s → p.id = q.id)
+    (hQ : ∀ ps', σ'.dur.pfile = some ps' → σ.dur.pfile = some ps' ∨
+      ((∀ p ∈ ps', ∃ q ∈ σ.vol.pending, q.id = p.id ∧ q.req = p.req) ∧ σ'.vol.pending = [] ∧ σ'.vol.sessions = []))
+    (hcl : ∀ s, s ∉ σ.tainted → ackd σ s → cleans σ.vol.pc s → cleans σ'.vol.pc s ∨ ¬ FS σ' s)
+    (hex : ∀ s, exA σ.vol.pc s → exA σ'.vol.pc s ∨ ¬ AS σ' s)
+    (hcv : ∀ s, covers σ.vol.pc s → covers σ'.vol.pc s ∨ ¬ QS σ' s)
+    (hr1 : isRec σ'.vol.pc → σ'.vol.sessions = [])
+    (hr2 : ∀ recd cur, recInfo σ'.vol.pc = some (recd, cur) →
+      (∀ x ∈ recd, ¬ FS σ' x) ∧ (∀ p ∈ σ'.vol.pending, ∀ s, isStop p s → s ∈ recd ∨ cur = some s))
+    (hdr : ∀ l, pendingDrain σ'.vol.pc = some l → l.Nodup)
+    (hrp : isRec σ'.vol.pc → isRec σ.vol.pc) : ND σ' :=
+  nd_gen h ht hAck hDup hA hF hP hPid hQ (fun s hs ha hc => cl_api hppc (hcl s hs ha) hc) hex hcv hr1 hr2 hdr
+    (fun hr => by rw [hppc]; exact h.rp (hrp hr))
+
+theorem nd_ackA {σ σ' : State} (h : ND σ) (k : Nat)
+    (hppc : σ'.vol.ppc = σ.vol.ppc)
+    (ht : σ'.tainted = σ.tainted)
+    (hAck : σ'.ackedStops = k :: σ.ackedStops)
+    (hDup : ∀ s, s ∉ σ.tainted → s ∈ σ'.dup → s ∈ σ.dup)
+    (hA : ∀ s, AS σ' s → AS σ s)
+    (hF : ∀ s, FS σ' s → FS σ s)
+    (hP : ∀ p ∈ σ'.vol.pending, ∃ q ∈ σ.vol.pending, q.id = p.id ∧ q.req = p.req)
+    (hQ : σ'.dur.pfile = σ.dur.pfile)
+    (h0P : k ∉ σ.tainted → ¬ PS σ' k) (h0F : k ∉ σ.tainted → FS σ' k → cleans σ'.vol.pc k)
+    (h0A : k ∉ σ.tainted → AS σ' k → exA σ'.vol.pc k)
+    (h0Q : k ∉ σ.tainted → QS σ' k → covers σ'.vol.pc k)
+    (hcl : ∀ s, s ∉ σ.tainted → ackd σ s → cleans σ.vol.pc s → cleans σ'.vol.pc s ∨ ¬ FS σ' s)
+    (hex : ∀ s, exA σ.vol.pc s → exA σ'.vol.pc s ∨ ¬ AS σ' s)
+    (hcv : ∀ s, covers σ.vol.pc s → covers σ'.vol.pc s ∨ ¬ QS σ' s)
+    (hr1 : isRec σ'.vol.pc → σ'.vol.sessions = [])
+    (hr2 : ∀ recd cur, recInfo σ'.vol.pc = some (recd, cur) →
+      (∀ x ∈ recd, ¬ FS σ' x) ∧ (∀ p ∈ σ'.vol.pending, ∀ s, isStop p s → s ∈ recd ∨ cur = some s))
+    (hdr : ∀ l, pendingDrain σ'.vol.pc = some l → l.Nodup)
+    (hrp : isRec σ'.vol.pc → isRec σ.vol.pc) : ND σ' :=
+  nd_ack h k ht hAck hDup hA hF hP hQ h0P (fun hk hf => Or.inl (h0F hk hf)) h0A h0Q
+    (fun s hs ha hc => cl_api hppc (hcl s hs ha) hc) hex hcv hr1 hr2 hdr
+    (fun hr => by rw [hppc]; exact h.rp (hrp hr))
 
 /-! ## frames without excuses, frames outside recovery and drain -/
 
 def noExcuse (pc : Option Frame) : Prop :=
-  (∀ s, ¬ cleans pc s) ∧ (∀ s b, ¬ exA pc s b) ∧ (∀ s, ¬ covers pc s)
+  (∀ s, ¬ cleans pc s) ∧ (∀ s, ¬ exA pc s) ∧ (∀ s, ¬ covers pc s)
 
 def quiet (pc : Option Frame) : Prop := ¬ isRec pc ∧ recInfo pc = none ∧ pendingDrain pc = none
 
 theorem noExcuse_none : noExcuse none := by
-  refine ⟨fun s => by simp [cleans], fun s b => by simp [exA, drainedBy, pendingDrain], fun s => by simp [covers]⟩
+  refine ⟨fun s => by simp [cleans], fun s => by simp [exA, drainedBy, pendingDrain], fun s => by simp [covers]⟩
 theorem noExcuse_startSend (k : Nat) : noExcuse (some (.startSend k)) := by
-  refine ⟨fun s => by simp [cleans], fun s b => by simp [exA, drainedBy, pendingDrain], fun s => by simp [covers]⟩
+  refine ⟨fun s => by simp [cleans], fun s => by simp [exA, drainedBy, pendingDrain], fun s => by simp [covers]⟩
 theorem noExcuse_startPersist (k : Nat) : noExcuse (some (.startPersist k)) := by
-  refine ⟨fun s => by simp [cleans], fun s b => by simp [exA, drainedBy, pendingDrain], fun s => by simp [covers]⟩
+  refine ⟨fun s => by simp [cleans], fun s => by simp [exA, drainedBy, pendingDrain], fun s => by simp [covers]⟩
 theorem noExcuse_stopPersist (k : Nat) : noExcuse (some (.stopPersist k)) := by
-  refine ⟨fun s => by simp [cleans], fun s b => by simp [exA, drainedBy, pendingDrain], fun s => by simp [covers]⟩
+  refine ⟨fun s => by simp [cleans], fun s => by simp [exA, drainedBy, pendingDrain], fun s => by simp [covers]⟩
 theorem noExcuse_stopSend (k : Nat) : noExcuse (some (.stopSend k)) := by
-  refine ⟨fun s => by simp [cleans], fun s b => by simp [exA, drainedBy, pendingDrain], fun s => by simp [covers]⟩
+  refine ⟨fun s => by simp [cleans], fun s => by simp [exA, drainedBy, pendingDrain], fun s => by simp [covers]⟩
 theorem noExcuse_intSend (k : Nat) : noExcuse (some (.intSend k)) := by
-  refine ⟨fun s => by simp [cleans], fun s b => by simp [exA, drainedBy, pendingDrain], fun s => by simp [covers]⟩
-theorem noExcuse_procSend (k : Nat) (r : List Nat) : noExcuse (some (.procSend k r)) := by
-  refine ⟨fun s => by simp [cleans], fun s b => by simp [exA, drainedBy, pendingDrain], fun s => by simp [covers]⟩
+  refine ⟨fun s => by simp [cleans], fun s => by simp [exA, drainedBy, pendingDrain], fun s => by simp [covers]⟩
 
 theorem quiet_none : quiet none := by simp [quiet, isRec, recInfo, pendingDrain]
 theorem quiet_startSend (k : Nat) : quiet (some (.startSend k)) := by simp [quiet, isRec, recInfo, pendingDrain]
@@ -356,83 +360,48 @@ theorem quiet_stopDelete (k : Nat) (b : Bool) : quiet (some (.stopDelete k b)) :
 theorem quiet_stopRemove (k : Nat) (b : Bool) : quiet (some (.stopRemove k b)) := by
   simp [quiet, isRec, recInfo, pendingDrain]
 theorem quiet_intSend (k : Nat) : quiet (some (.intSend k)) := by simp [quiet, isRec, recInfo, pendingDrain]
-theorem quiet_procRemove (k : Nat) (r : List Nat) : quiet (some (.procRemove k r)) := by
-  simp [quiet, isRec, recInfo, pendingDrain]
-theorem quiet_nextProc (ps : List PRec) (rest : List Nat) : quiet (nextProc ps rest) := by
-  induction rest with
-  | nil => exact quiet_none
-  | cons id rest ih =>
-    simp only [nextProc]
-    split
-    · simp [quiet, isRec, recInfo, pendingDrain]
-    · exact ih
 
-theorem noExcuse_nextProc (ps : List PRec) (rest : List Nat) : noExcuse (nextProc ps rest) := by
-  induction rest with
-  | nil => exact noExcuse_none
-  | cons id rest ih =>
-    simp only [nextProc]
-    split
-    · exact noExcuse_procSend _ _
-    · exact ih
-
-/-- `nd_gen` for a step that leaves a frame without excuses and enters a frame outside recovery/drain -/
+/-- `nd_genA` for a step that leaves a frame without excuses and enters a frame outside recovery/drain -/
 theorem nd_plain {σ σ' : State} (h : ND σ) (hne : noExcuse σ.vol.pc) (hq : quiet σ'.vol.pc)
+    (hppc : σ'.vol.ppc = σ.vol.ppc)
     (ht : σ'.tainted = σ.tainted)
-    (hL : ∀ s, stopIn σ'.log s ↔ stopIn σ.log s)
-    (hC : ∀ s, stopCount σ'.log s = stopCount σ.log s)
-    (hA : ∀ s, s ∉ σ.tainted → AS σ' s → AS σ s ∨ (¬ stopIn σ.log s ∧ ¬ PS σ' s ∧ ¬ QS σ' s))
-    (hF : ∀ s, s ∉ σ.tainted → FS σ' s → FS σ s ∨ ¬ stopIn σ.log s)
+    (hAck : σ'.ackedStops = σ.ackedStops)
+    (hDup : ∀ s, s ∉ σ.tainted → s ∈ σ'.dup → s ∈ σ.dup)
+    (hA : ∀ s, s ∉ σ.tainted → AS σ' s → AS σ s ∨ (¬ ackd σ s ∧ ¬ PS σ' s ∧ ¬ QS σ' s))
+    (hF : ∀ s, s ∉ σ.tainted → FS σ' s → FS σ s ∨ ¬ ackd σ s)
     (hP : ∀ p ∈ σ'.vol.pending, (∃ q ∈ σ.vol.pending, q.id = p.id ∧ q.req = p.req) ∨ p.req.kind ≠ .stop ∨
       (p.req.sid ∉ σ.tainted → NewStop σ σ' p))
     (hPid : ∀ s, s ∉ σ.tainted → ¬ PS σ s →
       ∀ p ∈ σ'.vol.pending, ∀ q ∈ σ'.vol.pending, isStop p s → isStop q s → p.id = q.id)
     (hQ : σ'.dur.pfile = σ.dur.pfile) : ND σ' := by
-  apply nd_gen h ht hL hC hA hF hP hPid
+  apply nd_genA h hppc ht hAck hDup hA hF hP hPid
   · intro ps' hps'; left; rw [← hQ]; exact hps'
   · intro s _ _ hc; exact absurd hc (hne.1 s)
-  · intro s b hc; exact absurd hc (hne.2.1 s b)
+  · intro s hc; exact absurd hc (hne.2.1 s)
   · intro s hc; exact absurd hc (hne.2.2 s)
   · intro hr; exact absurd hr hq.1
   · intro recd cur hr; rw [hq.2.1] at hr; simp at hr
   · intro l hl; rw [hq.2.2] at hl; simp at hl
+  · intro hr; exact absurd hr hq.1
 
-/-- the log's Stop part does not change when a non-Stop record is appended -/
-theorem stopIn_snoc_nonstop {log : List Rec} {r : Rec} (hk : r.kind ≠ .stop) (s : Nat) :
-    stopIn (log ++ [r]) s ↔ stopIn log s := by
-  rw [stopIn_snoc]
-  constructor
-  · rintro (h | ⟨h, _⟩)
-    · exact h
-    · exact absurd h hk
-  · exact Or.inl
-
-theorem stopCount_snoc_nonstop {log : List Rec} {r : Rec} (hk : r.kind ≠ .stop) (s : Nat) :
-    stopCount (log ++ [r]) s = stopCount log s := by
-  rw [stopCount_snoc]
-  have : isStopOf s r = false := by
-    simp only [isStopOf, Bool.and_eq_false_iff]
-    left; simpa using hk
-  simp [this]
-
-
-
-/-- a step that creates no source of a Stop and accepts none -/
+/-- an API step that creates no source of a Stop and acknowledges none -/
 theorem nd_sub {σ σ' : State} (h : ND σ)
+    (hppc : σ'.vol.ppc = σ.vol.ppc)
     (ht : σ'.tainted = σ.tainted)
-    (hL : ∀ s, stopIn σ'.log s ↔ stopIn σ.log s)
-    (hC : ∀ s, stopCount σ'.log s = stopCount σ.log s)
+    (hAck : σ'.ackedStops = σ.ackedStops)
+    (hDup : ∀ s, s ∉ σ.tainted → s ∈ σ'.dup → s ∈ σ.dup)
     (hA : ∀ s, AS σ' s → AS σ s) (hF : ∀ s, FS σ' s → FS σ s)
     (hP : ∀ p ∈ σ'.vol.pending, (∃ q ∈ σ.vol.pending, q.id = p.id ∧ q.req = p.req) ∨ p.req.kind ≠ .stop)
     (hQ : σ'.dur.pfile = σ.dur.pfile ∨ σ'.dur.pfile = none)
-    (hcl : ∀ s, s ∉ σ.tainted → stopIn σ.log s → cleans σ.vol.pc s → cleans σ'.vol.pc s ∨ ¬ FS σ' s)
-    (hex : ∀ s b, exA σ.vol.pc s b → exA σ'.vol.pc s b ∨ ¬ AS σ' s)
+    (hcl : ∀ s, s ∉ σ.tainted → ackd σ s → cleans σ.vol.pc s → cleans σ'.vol.pc s ∨ ¬ FS σ' s)
+    (hex : ∀ s, exA σ.vol.pc s → exA σ'.vol.pc s ∨ ¬ AS σ' s)
     (hcv : ∀ s, covers σ.vol.pc s → covers σ'.vol.pc s ∨ ¬ QS σ' s)
     (hr1 : isRec σ'.vol.pc → σ'.vol.sessions = [])
     (hr2 : ∀ recd cur, recInfo σ'.vol.pc = some (recd, cur) →
       (∀ x ∈ recd, ¬ FS σ' x) ∧ (∀ p ∈ σ'.vol.pending, ∀ s, isStop p s → s ∈ recd ∨ cur = some s))
-    (hdr : ∀ l, pendingDrain σ'.vol.pc = some l → l.Nodup) : ND σ' := by
-  apply nd_gen h ht hL hC (fun s _ hs => Or.inl (hA s hs)) (fun s _ hs => Or.inl (hF s hs))
+    (hdr : ∀ l, pendingDrain σ'.vol.pc = some l → l.Nodup)
+    (hrp : isRec σ'.vol.pc → isRec σ.vol.pc) : ND σ' := by
+  apply nd_genA h hppc ht hAck hDup (fun s _ hs => Or.inl (hA s hs)) (fun s _ hs => Or.inl (hF s hs))
   · intro p hp
     rcases hP p hp with h1 | h1
     · exact Or.inl h1
@@ -451,75 +420,128 @@ theorem nd_sub {σ σ' : State} (h : ND σ)
   · exact hr1
   · exact hr2
   · exact hdr
+  · exact hrp
 
-/-- `nd_sub` when the frame left has no excuses and the frame entered is outside recovery and drain -/
 theorem nd_sub_plain {σ σ' : State} (h : ND σ) (hne : noExcuse σ.vol.pc) (hq : quiet σ'.vol.pc)
+    (hppc : σ'.vol.ppc = σ.vol.ppc)
     (ht : σ'.tainted = σ.tainted)
-    (hL : ∀ s, stopIn σ'.log s ↔ stopIn σ.log s)
-    (hC : ∀ s, stopCount σ'.log s = stopCount σ.log s)
+    (hAck : σ'.ackedStops = σ.ackedStops)
+    (hDup : ∀ s, s ∉ σ.tainted → s ∈ σ'.dup → s ∈ σ.dup)
     (hA : ∀ s, AS σ' s → AS σ s) (hF : ∀ s, FS σ' s → FS σ s)
     (hP : ∀ p ∈ σ'.vol.pending, (∃ q ∈ σ.vol.pending, q.id = p.id ∧ q.req = p.req) ∨ p.req.kind ≠ .stop)
     (hQ : σ'.dur.pfile = σ.dur.pfile ∨ σ'.dur.pfile = none) : ND σ' := by
-  apply nd_sub h ht hL hC hA hF hP hQ
+  apply nd_sub h hppc ht hAck hDup hA hF hP hQ
   · intro s _ _ hc; exact absurd hc (hne.1 s)
-  · intro s b hc; exact absurd hc (hne.2.1 s b)
+  · intro s hc; exact absurd hc (hne.2.1 s)
   · intro s hc; exact absurd hc (hne.2.2 s)
   · intro hr; exact absurd hr hq.1
   · intro recd cur hr; rw [hq.2.1] at hr; simp at hr
   · intro l hl; rw [hq.2.2] at hl; simp at hl
+  · intro hr; exact absurd hr hq.1
 
-/-! ## the micro-steps -/
+/-- accepting a record that is not a Stop leaves the duplicate ghost alone -/
+theorem dup_accept_nonstop {σ : State} {r : Rec} (b : Bool) (hk : r.kind ≠ .stop) :
+    (accept σ r b).dup = σ.dup ∧ (accept σ r b).ackedStops = σ.ackedStops := by
+  have : (r.kind == Kind.stop) = false := by simpa using hk
+  simp [accept, this]
+
+/-- accepting a Stop whose session has no acknowledged Stop leaves the duplicate ghost alone -/
+theorem dup_accept_stop {σ : State} {r : Rec} (b : Bool) (hn : r.sid ∉ σ.ackedStops) :
+    (accept σ r b).dup = σ.dup := by
+  simp only [accept]
+  split
+  · rename_i hc
+    simp only [Bool.and_eq_true, List.contains_eq_mem, decide_eq_true_eq] at hc
+    exact absurd hc.2 hn
+  · rfl
+
+
+theorem loadPending_acks (σ : State) (recd : List Nat) (l : List PRec) :
+    (loadPending σ recd l).ackedStops = σ.ackedStops ∧ (loadPending σ recd l).dup = σ.dup := by
+  induction l generalizing σ with
+  | nil => exact ⟨rfl, rfl⟩
+  | cons q qs ih =>
+    simp only [loadPending]
+    split
+    · exact ih σ
+    · exact ih _
+
+/-! ## the API micro-steps -/
 
 /-- sending (or queueing) a record that is not a Stop -/
-theorem nd_send_nonstop {σ : State} (h : ND σ) (hne : noExcuse σ.vol.pc) (r : Rec) (a : Bool)
+theorem nd_send_nonstop {σ : State} (h : ND σ) (hne : noExcuse σ.vol.pc) (r : Rec) (a : Ans)
     (hk : r.kind ≠ .stop) (pc' : Option Frame) (hq : quiet pc') : ND (setPc (send σ r a false) pc') := by
+  have hn := fun b => dup_accept_nonstop (σ := σ) b hk
   cases a with
-  | true =>
-    apply nd_sub_plain (σ' := setPc (send σ r true false) pc') h hne hq rfl
-    · intro s; exact stopIn_snoc_nonstop hk s
-    · intro s; exact stopCount_snoc_nonstop hk s
+  | up =>
+    apply nd_sub_plain (σ' := setPc (send σ r .up false) pc') h hne hq rfl rfl (hn true).2
+    · intro s _ hd; rw [show (setPc (send σ r .up false) pc').dup = (accept σ r true).dup from rfl, (hn true).1] at hd
+      exact hd
     · exact fun s hs => hs
     · exact fun s hs => hs
     · intro p hp; exact Or.inl ⟨p, hp, rfl, rfl⟩
     · exact Or.inl rfl
-  | false =>
-    apply nd_sub_plain (σ' := setPc (send σ r false false) pc') h hne hq rfl
-    · intro s; exact Iff.rfl
-    · intro s; rfl
+  | down =>
+    apply nd_sub_plain (σ' := setPc (send σ r .down false) pc') h hne hq rfl rfl rfl (fun s _ hd => hd)
+      (fun s hs => hs) (fun s hs => hs)
+    · intro p hp
+      simp only [setPc, send, enqueue, List.mem_cons] at hp
+      rcases hp with e | e
+      · subst e; exact Or.inr hk
+      · exact Or.inl ⟨p, e, rfl, rfl⟩
+    · exact Or.inl rfl
+  | lost =>
+    apply nd_sub_plain (σ' := setPc (send σ r .lost false) pc') h hne hq rfl rfl (hn false).2
+    · intro s _ hd
+      rw [show (setPc (send σ r .lost false) pc').dup = (accept σ r false).dup from rfl, (hn false).1] at hd
+      exact hd
     · exact fun s hs => hs
     · exact fun s hs => hs
     · intro p hp
-      simp only [setPc, send, enqueue, Bool.false_eq_true, if_false, List.mem_cons] at hp
+      simp only [setPc, send, enqueue, List.mem_cons] at hp
       rcases hp with e | e
       · subst e; exact Or.inr hk
       · exact Or.inl ⟨p, e, rfl, rfl⟩
     · exact Or.inl rfl
 
-theorem nd_tickStartSend {σ : State} (h : ND σ) {k : Nat} (heq : σ.vol.pc = some (.startSend k)) (a : Bool) :
+theorem nd_idle {σ : State} (h : ND σ) (hne : noExcuse σ.vol.pc) (pc' : Option Frame) (hq : quiet pc') :
+    ND (setPc σ pc') :=
+  nd_sub_plain (σ' := setPc σ pc') h hne hq rfl rfl rfl (fun _ _ hd => hd) (fun s hs => hs) (fun s hs => hs)
+    (fun p hp => Or.inl ⟨p, hp, rfl, rfl⟩) (Or.inl rfl)
+
+theorem nd_tickStartSend {σ : State} (h : ND σ) {k : Nat} (heq : σ.vol.pc = some (.startSend k)) (a : Ans) :
     ND (tickStartSend σ k a) := by
   have hne : noExcuse σ.vol.pc := by rw [heq]; exact noExcuse_startSend k
   unfold tickStartSend
   split
-  · exact nd_sub_plain (σ' := setPc σ none) h hne quiet_none rfl (fun _ => Iff.rfl) (fun _ => rfl)
-      (fun s hs => hs) (fun s hs => hs) (fun p hp => Or.inl ⟨p, hp, rfl, rfl⟩) (Or.inl rfl)
+  · exact nd_idle h hne none quiet_none
   · exact nd_send_nonstop h hne _ a (by simp) _ (quiet_startPersist k)
 
 /-- persisting a session that is in memory, from a frame that has no excuse for it -/
 theorem nd_persist {σ : State} (h : ND σ) (hne : noExcuse σ.vol.pc) (k : Nat) (pc' : Option Frame)
     (hq : quiet pc') (st : List Nat) :
     ND (setPc { (persistSession σ k) with started := st } pc') := by
-  have pl : (persistSession σ k).log = σ.log ∧ (persistSession σ k).vol = σ.vol ∧
-      (persistSession σ k).tainted = σ.tainted ∧ (persistSession σ k).dur.pfile = σ.dur.pfile := by
-    unfold persistSession; split <;> exact ⟨rfl, rfl, rfl, rfl⟩
-  apply nd_plain (σ' := setPc { (persistSession σ k) with started := st } pc') h hne hq
+  have pl : (persistSession σ k).vol = σ.vol ∧ (persistSession σ k).ackedStops = σ.ackedStops ∧
+      (persistSession σ k).tainted = σ.tainted ∧ (persistSession σ k).dur.pfile = σ.dur.pfile ∧
+      (persistSession σ k).dup = σ.dup := by
+    unfold persistSession; split <;> exact ⟨rfl, rfl, rfl, rfl, rfl⟩
+  have hvol : (setPc { (persistSession σ k) with started := st } pc').vol.sessions = σ.vol.sessions ∧
+      (setPc { (persistSession σ k) with started := st } pc').vol.pending = σ.vol.pending ∧
+      (setPc { (persistSession σ k) with started := st } pc').vol.ppc = σ.vol.ppc := by
+    refine ⟨?_, ?_, ?_⟩
+    · show (persistSession σ k).vol.sessions = _; rw [pl.1]
+    · show (persistSession σ k).vol.pending = _; rw [pl.1]
+    · show (persistSession σ k).vol.ppc = _; rw [pl.1]
+  apply nd_plain (σ' := setPc { (persistSession σ k) with started := st } pc') h hne hq hvol.2.2
   · exact pl.2.2.1
-  · intro s; show stopIn (persistSession σ k).log s ↔ _; rw [pl.1]
-  · intro s; show stopCount (persistSession σ k).log s = _; rw [pl.1]
+  · exact pl.2.1
+  · intro s _ hd
+    rw [show (setPc { (persistSession σ k) with started := st } pc').dup = (persistSession σ k).dup from rfl,
+      pl.2.2.2.2] at hd
+    exact hd
   · intro s _ hs
     left
-    have : (setPc { (persistSession σ k) with started := st } pc').vol.sessions = σ.vol.sessions := by
-      show (persistSession σ k).vol.sessions = _; rw [pl.2.1]
-    unfold AS at hs ⊢; rw [this] at hs; exact hs
+    unfold AS at hs ⊢; rw [hvol.1] at hs; exact hs
   · intro s ht hs
     have hfiles : (setPc { (persistSession σ k) with started := st } pc').dur.files =
         (persistSession σ k).dur.files := rfl
@@ -535,28 +557,22 @@ theorem nd_persist {σ : State} (h : ND σ) (hne : noExcuse σ.vol.pc) (k : Nat)
         right
         intro hl
         have := (h.per s ht).f hl (by unfold AS; rw [hx]; rfl)
-        exact hne.2.1 s true this
+        exact hne.2.1 s this
       · exact Or.inl hs
   · intro p hp
-    have : (setPc { (persistSession σ k) with started := st } pc').vol.pending = σ.vol.pending := by
-      show (persistSession σ k).vol.pending = _; rw [pl.2.1]
-    rw [this] at hp
+    rw [hvol.2.1] at hp
     exact Or.inl ⟨p, hp, rfl, rfl⟩
   · intro s _ hps p hp q hq h1 _
-    have : (setPc { (persistSession σ k) with started := st } pc').vol.pending = σ.vol.pending := by
-      show (persistSession σ k).vol.pending = _; rw [pl.2.1]
-    rw [this] at hp
+    rw [hvol.2.1] at hp
     exact absurd ⟨p, hp, h1⟩ hps
-  · exact pl.2.2.2
-
+  · exact pl.2.2.2.1
 
 theorem nd_tickStartPersist {σ : State} (h : ND σ) {k : Nat} (heq : σ.vol.pc = some (.startPersist k)) :
     ND (tickStartPersist σ k) := by
   have hne : noExcuse σ.vol.pc := by rw [heq]; exact noExcuse_startPersist k
   unfold tickStartPersist
   split
-  · exact nd_sub_plain (σ' := setPc σ none) h hne quiet_none rfl (fun _ => Iff.rfl) (fun _ => rfl)
-      (fun s hs => hs) (fun s hs => hs) (fun p hp => Or.inl ⟨p, hp, rfl, rfl⟩) (Or.inl rfl)
+  · exact nd_idle h hne none quiet_none
   · exact nd_persist h hne k none quiet_none _
 
 theorem nd_tickStopPersist {σ : State} (h : ND σ) {k : Nat} (heq : σ.vol.pc = some (.stopPersist k)) :
@@ -564,35 +580,39 @@ theorem nd_tickStopPersist {σ : State} (h : ND σ) {k : Nat} (heq : σ.vol.pc =
   have hne : noExcuse σ.vol.pc := by rw [heq]; exact noExcuse_stopPersist k
   exact nd_persist h hne k (some (.stopSend k)) (quiet_stopSend k) (persistSession σ k).started
 
-/-- queueing a Stop that could not be sent -/
-theorem nd_enqueue_stop {σ : State} (h : ND σ) (r : Rec) (v : Bool) (hk : r.kind = .stop) (pc' : Option Frame)
-    (f : State → State) (hf : ∀ τ, (f τ).tainted = τ.tainted ∧ (f τ).log = τ.log ∧ (f τ).vol = τ.vol ∧ (f τ).dur = τ.dur)
-    (hn1 : r.sid ∉ σ.tainted → ¬ PS σ r.sid) (hn2 : r.sid ∉ σ.tainted → ¬ stopIn σ.log r.sid)
-    (hn3 : r.sid ∉ σ.tainted → AS σ r.sid → exA pc' r.sid false)
+/-- queueing a Stop the client saw fail (`τ` = the state in which it is queued: σ, or σ after the server
+    accepted the request without the client learning it) -/
+theorem nd_enqueue_stop {σ τ : State} (h : ND σ) (r : Rec) (v : Bool) (hk : r.kind = .stop) (pc' : Option Frame)
+    (hτ : τ.tainted = σ.tainted ∧ τ.ackedStops = σ.ackedStops ∧ τ.vol = σ.vol ∧ τ.dur = σ.dur)
+    (hτd : ∀ s, s ∉ σ.tainted → s ∈ τ.dup → s ∈ σ.dup)
+    (hn1 : r.sid ∉ σ.tainted → ¬ PS σ r.sid) (hn2 : r.sid ∉ σ.tainted → ¬ ackd σ r.sid)
+    (hn3 : r.sid ∉ σ.tainted → AS σ r.sid → exA pc' r.sid)
     (hn4 : r.sid ∉ σ.tainted → QS σ r.sid → covers pc' r.sid)
-    (hcl : ∀ s, s ∉ σ.tainted → stopIn σ.log s → cleans σ.vol.pc s → cleans pc' s ∨ ¬ FS σ s)
-    (hex : ∀ s b, exA σ.vol.pc s b → exA pc' s b ∨ ¬ AS σ s)
+    (hcl : ∀ s, s ∉ σ.tainted → ackd σ s → cleans σ.vol.pc s → cleans pc' s ∨ ¬ FS σ s)
+    (hex : ∀ s, exA σ.vol.pc s → exA pc' s ∨ ¬ AS σ s)
     (hcv : ∀ s, covers σ.vol.pc s → covers pc' s ∨ ¬ QS σ s)
     (hr1 : isRec pc' → σ.vol.sessions = [])
     (hr2 : ∀ recd cur, recInfo pc' = some (recd, cur) →
       (∀ x ∈ recd, ¬ FS σ x) ∧ (cur = some r.sid ∨ r.sid ∈ recd) ∧
       (∀ p ∈ σ.vol.pending, ∀ s, isStop p s → s ∈ recd ∨ cur = some s))
-    (hdr : ∀ l, pendingDrain pc' = some l → l.Nodup) :
-    ND (setPc (enqueue (f σ) r v) pc') := by
-  obtain ⟨f1, f2, f3, f4⟩ := hf σ
-  have eA : ∀ s, AS (setPc (enqueue (f σ) r v) pc') s ↔ AS σ s := by
-    intro s; unfold AS; show (lookup (f σ).vol.sessions s).isSome = true ↔ _; rw [f3]
-  have eF : ∀ s, FS (setPc (enqueue (f σ) r v) pc') s ↔ FS σ s := by
-    intro s; unfold FS; show (lookup (f σ).dur.files s).isSome = true ↔ _; rw [f4]
-  have eQ : ∀ s, QS (setPc (enqueue (f σ) r v) pc') s ↔ QS σ s := by
-    intro s; unfold QS; show (∃ ps, (f σ).dur.pfile = some ps ∧ _) ↔ _; rw [f4]
-  have ePend : (setPc (enqueue (f σ) r v) pc').vol.pending =
-      { id := (f σ).clock + 1, req := r, retries := 0, viaRecovery := v } :: σ.vol.pending := by
-    show _ :: (f σ).vol.pending = _; rw [f3]
-  apply nd_gen (σ' := setPc (enqueue (f σ) r v) pc') h
-  · show (f σ).tainted = _; exact f1
-  · intro s; show stopIn (f σ).log s ↔ _; rw [f2]
-  · intro s; show stopCount (f σ).log s = _; rw [f2]
+    (hdr : ∀ l, pendingDrain pc' = some l → l.Nodup)
+    (hrp : isRec pc' → isRec σ.vol.pc) :
+    ND (setPc (enqueue τ r v) pc') := by
+  obtain ⟨f1, f2, f3, f4⟩ := hτ
+  have eA : ∀ s, AS (setPc (enqueue τ r v) pc') s ↔ AS σ s := by
+    intro s; unfold AS; show (lookup τ.vol.sessions s).isSome = true ↔ _; rw [f3]
+  have eF : ∀ s, FS (setPc (enqueue τ r v) pc') s ↔ FS σ s := by
+    intro s; unfold FS; show (lookup τ.dur.files s).isSome = true ↔ _; rw [f4]
+  have eQ : ∀ s, QS (setPc (enqueue τ r v) pc') s ↔ QS σ s := by
+    intro s; unfold QS; show (∃ ps, τ.dur.pfile = some ps ∧ _) ↔ _; rw [f4]
+  have ePend : (setPc (enqueue τ r v) pc').vol.pending =
+      { id := τ.clock + 1, req := r, retries := 0, viaRecovery := v } :: σ.vol.pending := by
+    show _ :: τ.vol.pending = _; rw [f3]
+  apply nd_genA (σ' := setPc (enqueue τ r v) pc') h
+  · show τ.vol.ppc = _; rw [f3]
+  · show τ.tainted = _; exact f1
+  · show τ.ackedStops = _; exact f2
+  · exact hτd
   · intro s _ hs; exact Or.inl ((eA s).mp hs)
   · intro s _ hs; exact Or.inl ((eF s).mp hs)
   · intro p hp
@@ -611,15 +631,15 @@ theorem nd_enqueue_stop {σ : State} (h : ND σ) (r : Rec) (v : Bool) (hk : r.ki
       · exact absurd ⟨q, e', h2⟩ hps
     · exact absurd ⟨p, e, h1⟩ hps
   · intro ps' hps'; left
-    have : (setPc (enqueue (f σ) r v) pc').dur.pfile = σ.dur.pfile := by
-      show (f σ).dur.pfile = _; rw [f4]
+    have : (setPc (enqueue τ r v) pc').dur.pfile = σ.dur.pfile := by
+      show τ.dur.pfile = _; rw [f4]
     rw [← this]; exact hps'
   · intro s ht hl hc
     rcases hcl s ht hl hc with h1 | h1
     · exact Or.inl h1
     · exact Or.inr (fun hh => h1 ((eF s).mp hh))
-  · intro s b hc
-    rcases hex s b hc with h1 | h1
+  · intro s hc
+    rcases hex s hc with h1 | h1
     · exact Or.inl h1
     · exact Or.inr (fun hh => h1 ((eA s).mp hh))
   · intro s hc
@@ -627,7 +647,7 @@ theorem nd_enqueue_stop {σ : State} (h : ND σ) (r : Rec) (v : Bool) (hk : r.ki
     · exact Or.inl h1
     · exact Or.inr (fun hh => h1 ((eQ s).mp hh))
   · intro hr
-    show (f σ).vol.sessions = []; rw [f3]; exact hr1 hr
+    show τ.vol.sessions = []; rw [f3]; exact hr1 hr
   · intro recd cur hr
     obtain ⟨a1, a2, a3⟩ := hr2 recd cur hr
     refine ⟨fun x hx hh => a1 x hx ((eF x).mp hh), ?_⟩
@@ -642,47 +662,100 @@ theorem nd_enqueue_stop {σ : State} (h : ND σ) (r : Rec) (v : Bool) (hk : r.ki
       · exact Or.inl h1
     · exact a3 p e s hst
   · exact hdr
+  · exact hrp
+
+/-- the server accepted a Stop but the client did not learn it: as a state in which to queue the record -/
+theorem lost_state {σ : State} (r : Rec) (hn : r.sid ∉ σ.tainted → ¬ ackd σ r.sid) :
+    ((accept σ r false).tainted = σ.tainted ∧ (accept σ r false).ackedStops = σ.ackedStops ∧
+      (accept σ r false).vol = σ.vol ∧ (accept σ r false).dur = σ.dur) ∧
+    (∀ s, s ∉ σ.tainted → s ∈ (accept σ r false).dup → s ∈ σ.dup) := by
+  refine ⟨⟨rfl, by simp [accept], rfl, rfl⟩, ?_⟩
+  intro s hs hd
+  simp only [accept] at hd
+  split at hd
+  · rename_i hc
+    simp only [Bool.and_eq_true, List.contains_eq_mem, decide_eq_true_eq] at hc
+    rcases List.mem_cons.mp hd with e | e
+    · subst e; exact absurd hc.2 (hn hs)
+    · exact e
+  · exact hd
 
 
-theorem nd_tickStopSend {σ : State} (h : ND σ) {k : Nat} (heq : σ.vol.pc = some (.stopSend k)) (a : Bool) :
+theorem dup_accept_mem {σ : State} {r : Rec} {b : Bool} {s : Nat} (h : s ∈ (accept σ r b).dup) :
+    s ∈ σ.dup ∨ (s = r.sid ∧ r.sid ∈ σ.ackedStops) := by
+  simp only [accept] at h
+  split at h
+  · rename_i hc
+    simp only [Bool.and_eq_true, List.contains_eq_mem, decide_eq_true_eq] at hc
+    rcases List.mem_cons.mp h with e | e
+    · exact Or.inr ⟨e, hc.2⟩
+    · exact Or.inl e
+  · exact Or.inl h
+
+/-- the duplicate ghost after accepting a Stop of a session that has no acknowledged Stop (if untainted) -/
+theorem dup_after_accept {σ : State} {r : Rec} {b : Bool} (hn : r.sid ∉ σ.tainted → ¬ ackd σ r.sid)
+    (s : Nat) (hs : s ∉ σ.tainted) (h : s ∈ (accept σ r b).dup) : s ∈ σ.dup := by
+  rcases dup_accept_mem h with h1 | ⟨h1, h2⟩
+  · exact h1
+  · subst h1; exact absurd h2 (hn hs)
+
+theorem acked_accept_stop {σ : State} {r : Rec} (hk : r.kind = .stop) :
+    (accept σ r true).ackedStops = r.sid :: σ.ackedStops := by
+  simp [accept, hk]
+
+theorem nd_tickStopSend {σ : State} (h : ND σ) {k : Nat} (heq : σ.vol.pc = some (.stopSend k)) (a : Ans) :
     ND (tickStopSend σ k a) := by
   have hne : noExcuse σ.vol.pc := by rw [heq]; exact noExcuse_stopSend k
   unfold tickStopSend
   split
-  · exact nd_sub_plain (σ' := setPc σ none) h hne quiet_none rfl (fun _ => Iff.rfl) (fun _ => rfl)
-      (fun s hs => hs) (fun s hs => hs) (fun p hp => Or.inl ⟨p, hp, rfl, rfl⟩) (Or.inl rfl)
+  · exact nd_idle h hne none quiet_none
   · rename_i x hx
     have hAS : AS σ k := by unfold AS; rw [hx]; rfl
-    have noStop : k ∉ σ.tainted → ¬ stopIn σ.log k :=
-      fun ht hl => hne.2.1 k true ((h.per k ht).f hl hAS)
+    have noStop : k ∉ σ.tainted → ¬ ackd σ k :=
+      fun ht hl => hne.2.1 k ((h.per k ht).f hl hAS)
     have noPS : k ∉ σ.tainted → ¬ PS σ k :=
-      fun ht hp => hne.2.1 k false ((h.per k ht).h hp hAS)
+      fun ht hp => hne.2.1 k ((h.per k ht).h hp hAS)
     have noQS : k ∉ σ.tainted → ¬ QS σ k := fun ht => (h.per k ht).j hAS
     cases a with
-    | true =>
-      apply nd_ack (σ' := setPc (send σ (stopRec k x x.stopCause (counters σ k)) true false)
-        (some (.stopDelete k true))) h (stopRec k x x.stopCause (counters σ k)) rfl rfl rfl noStop
+    | up =>
+      apply nd_ackA (σ' := setPc (send σ (stopRec k x x.stopCause (counters σ k)) .up false)
+        (some (.stopDelete k true))) h k rfl rfl
+        (acked_accept_stop (σ := σ) (r := stopRec k x x.stopCause (counters σ k)) rfl)
+        (dup_after_accept (r := stopRec k x x.stopCause (counters σ k)) (b := true) noStop)
         (fun s hs => hs) (fun s hs => hs) (fun p hp => ⟨p, hp, rfl, rfl⟩) rfl
       · exact noPS
       · intro _ _; rfl
-      · intro _ _; exact Or.inl rfl
+      · intro _ _; exact Or.inl ⟨true, rfl⟩
       · intro ht hq; exact absurd hq (noQS ht)
       · intro s _ _ hc; exact absurd hc (hne.1 s)
-      · intro s b hc; exact absurd hc (hne.2.1 s b)
+      · intro s hc; exact absurd hc (hne.2.1 s)
       · intro s hc; exact absurd hc (hne.2.2 s)
       · intro hr; exact absurd hr (quiet_stopDelete k true).1
       · intro recd cur hr; simp [setPc, recInfo] at hr
       · intro l hl; simp [setPc, pendingDrain] at hl
-    | false =>
-      have := nd_enqueue_stop h (stopRec k x x.stopCause (counters σ k)) false rfl (some (.stopDelete k false)) id
-        (fun τ => ⟨rfl, rfl, rfl, rfl⟩) noPS noStop (fun _ _ => Or.inl rfl)
+      · intro hr; exact absurd hr (quiet_stopDelete k true).1
+    | down =>
+      exact nd_enqueue_stop (τ := σ) h (stopRec k x x.stopCause (counters σ k)) false rfl (some (.stopDelete k false))
+        ⟨rfl, rfl, rfl, rfl⟩ (fun _ _ hd => hd) noPS noStop (fun _ _ => Or.inl ⟨false, rfl⟩)
         (fun ht hq => absurd hq (noQS ht))
-        (fun s _ _ hc => absurd hc (hne.1 s)) (fun s b hc => absurd hc (hne.2.1 s b))
+        (fun s _ _ hc => absurd hc (hne.1 s)) (fun s hc => absurd hc (hne.2.1 s))
         (fun s hc => absurd hc (hne.2.2 s))
         (fun hr => absurd hr (quiet_stopDelete k false).1)
         (fun recd cur hr => by simp [recInfo] at hr)
         (fun l hl => by simp [pendingDrain] at hl)
-      exact this
+        (fun hr => absurd hr (quiet_stopDelete k false).1)
+    | lost =>
+      obtain ⟨l1, l2⟩ := lost_state (σ := σ) (stopRec k x x.stopCause (counters σ k)) noStop
+      exact nd_enqueue_stop (τ := accept σ (stopRec k x x.stopCause (counters σ k)) false) h
+        (stopRec k x x.stopCause (counters σ k)) false rfl (some (.stopDelete k false))
+        l1 l2 noPS noStop (fun _ _ => Or.inl ⟨false, rfl⟩)
+        (fun ht hq => absurd hq (noQS ht))
+        (fun s _ _ hc => absurd hc (hne.1 s)) (fun s hc => absurd hc (hne.2.1 s))
+        (fun s hc => absurd hc (hne.2.2 s))
+        (fun hr => absurd hr (quiet_stopDelete k false).1)
+        (fun recd cur hr => by simp [recInfo] at hr)
+        (fun l hl => by simp [pendingDrain] at hl)
+        (fun hr => absurd hr (quiet_stopDelete k false).1)
 
 theorem nd_tickStopDelete {σ : State} (h : ND σ) {k : Nat} {b : Bool}
     (heq : σ.vol.pc = some (.stopDelete k b)) : ND (tickStopDelete σ k b) := by
@@ -696,18 +769,18 @@ theorem nd_tickStopDelete {σ : State} (h : ND σ) {k : Nat} {b : Bool}
     · simp at hs
     · rename_i e; exact ⟨hs, e⟩
   apply nd_sub (σ' := setPc { σ with vol := { σ.vol with sessions := AMap.erase σ.vol.sessions k } }
-    (some (.stopRemove k b))) h rfl (fun _ => Iff.rfl) (fun _ => rfl) (fun s hs => (hA s hs).1)
+    (some (.stopRemove k b))) h rfl rfl rfl (fun _ _ hd => hd) (fun s hs => (hA s hs).1)
     (fun s hs => hs) (fun p hp => Or.inl ⟨p, hp, rfl, rfl⟩) (Or.inl rfl)
   · intro s _ _ hc
     rw [heq] at hc
     left
     cases b <;> simp_all [cleans, setPc]
-  · intro s b' hc
+  · intro s hc
     rw [heq] at hc
     right
     intro hs
     have := hA s hs
-    rcases hc with e | ⟨l, hl, _⟩
+    rcases hc with ⟨b', e⟩ | ⟨l, hl, _⟩
     · simp only [Option.some.injEq, Frame.stopDelete.injEq] at e
       exact this.2 e.1.symm
     · simp [pendingDrain] at hl
@@ -715,6 +788,7 @@ theorem nd_tickStopDelete {σ : State} (h : ND σ) {k : Nat} {b : Bool}
   · intro hr; exact absurd hr (quiet_stopRemove k b).1
   · intro recd cur hr; simp [setPc, recInfo] at hr
   · intro l hl; simp [setPc, pendingDrain] at hl
+  · intro hr; exact absurd hr (quiet_stopRemove k b).1
 
 theorem nd_tickStopRemove {σ : State} (h : ND σ) {k : Nat} {b : Bool}
     (heq : σ.vol.pc = some (.stopRemove k b)) : ND (tickStopRemove σ k b) := by
@@ -731,8 +805,9 @@ theorem nd_tickStopRemove {σ : State} (h : ND σ) {k : Nat} {b : Bool}
       · rename_i e; exact ⟨hs, fun _ => e⟩
   apply nd_sub (σ' := setPc (if b = true then removeFile σ k else σ) none) h
   · cases b <;> rfl
-  · intro s; cases b <;> exact Iff.rfl
-  · intro s; cases b <;> rfl
+  · cases b <;> rfl
+  · cases b <;> rfl
+  · intro s _ hd; cases b <;> exact hd
   · intro s hs; cases b <;> exact hs
   · exact fun s hs => (hF s hs).1
   · intro p hp; cases b <;> exact Or.inl ⟨p, hp, rfl, rfl⟩
@@ -746,32 +821,35 @@ theorem nd_tickStopRemove {σ : State} (h : ND σ) {k : Nat} {b : Bool}
     | true =>
       simp only [cleans] at hc
       exact (hF s hs).2 rfl hc.symm
-  · intro s b' hc
+  · intro s hc
     rw [heq] at hc
-    rcases hc with e | ⟨l, hl, _⟩
+    rcases hc with ⟨b', e⟩ | ⟨l, hl, _⟩
     · simp at e
     · simp [pendingDrain] at hl
   · intro s hc; rw [heq] at hc; simp [covers] at hc
   · intro hr; exact absurd hr quiet_none.1
   · intro recd cur hr; simp [setPc, recInfo] at hr
   · intro l hl; simp [setPc, pendingDrain] at hl
+  · intro hr; exact absurd hr quiet_none.1
 
-
-theorem nd_tickIntSend {σ : State} (h : ND σ) {k : Nat} (heq : σ.vol.pc = some (.intSend k)) (a : Bool) :
+theorem nd_tickIntSend {σ : State} (h : ND σ) {k : Nat} (heq : σ.vol.pc = some (.intSend k)) (a : Ans) :
     ND (tickIntSend σ k a) := by
   have hne : noExcuse σ.vol.pc := by rw [heq]; exact noExcuse_intSend k
   unfold tickIntSend
   split
-  · exact nd_sub_plain (σ' := setPc σ none) h hne quiet_none rfl (fun _ => Iff.rfl) (fun _ => rfl)
-      (fun s hs => hs) (fun s hs => hs) (fun p hp => Or.inl ⟨p, hp, rfl, rfl⟩) (Or.inl rfl)
+  · exact nd_idle h hne none quiet_none
   · rename_i x hx
     dsimp only
+    have hn := fun b => dup_accept_nonstop (σ := σ)
+      (r := { kind := .interim, sid := k, ident := x.ident, cause := 0, inOct := (counters σ k).1,
+              outOct := (counters σ k).2 }) b (by simp)
     split
     · apply nd_sub_plain h hne
       · exact quiet_none
       · rfl
-      · intro s; exact stopIn_snoc_nonstop (by simp) s
-      · intro s; exact stopCount_snoc_nonstop (by simp) s
+      · rfl
+      · exact (hn true).2
+      · intro s _ hd; exact (hn true).1 ▸ hd
       · intro s hs
         unfold AS at hs ⊢
         simp only [setPc, accept, lookup_insert] at hs
@@ -781,160 +859,8 @@ theorem nd_tickIntSend {σ : State} (h : ND σ) {k : Nat} (heq : σ.vol.pc = som
       · exact fun s hs => hs
       · intro p hp; exact Or.inl ⟨p, hp, rfl, rfl⟩
       · exact Or.inl rfl
-    · apply nd_sub_plain h hne
-      · exact quiet_none
-      · rfl
-      · exact fun _ => Iff.rfl
-      · exact fun _ => rfl
-      · exact fun s hs => hs
-      · exact fun s hs => hs
-      · intro p hp
-        simp only [setPc, enqueue, List.mem_cons] at hp
-        rcases hp with e | e
-        · subst e; exact Or.inr (by simp)
-        · exact Or.inl ⟨p, e, rfl, rfl⟩
-      · exact Or.inl rfl
-
-theorem nd_tickProcSend {σ : State} (h : ND σ) {id : Nat} {rest : List Nat}
-    (heq : σ.vol.pc = some (.procSend id rest)) (a : Bool) : ND (tickProcSend σ id rest a) := by
-  have hne : noExcuse σ.vol.pc := by rw [heq]; exact noExcuse_procSend id rest
-  unfold tickProcSend
-  split
-  · exact nd_sub_plain (σ' := setPc σ _) h hne (quiet_nextProc _ _) rfl (fun _ => Iff.rfl) (fun _ => rfl)
-      (fun s hs => hs) (fun s hs => hs) (fun p hp => Or.inl ⟨p, hp, rfl, rfl⟩) (Or.inl rfl)
-  · rename_i p hp
-    have hm := findP_mem hp
-    have hid := findP_id hp
-    dsimp only
-    split
-    · -- acknowledged
-      split
-      · rename_i hk
-        have hk' : p.req.kind = .stop := by simpa using hk
-        have hPS : PS σ p.req.sid := ⟨p, hm, hk', rfl⟩
-        apply nd_ack h p.req hk'
-        · rfl
-        · rfl
-        · intro ht hl; exact (h.per _ ht).d hl hPS
-        · exact fun s hs => hs
-        · exact fun s hs => hs
-        · intro q hq; exact ⟨q, mem_eraseP hq, rfl, rfl⟩
-        · rfl
-        · intro ht ⟨q, hq, hst⟩
-          have hq' : q ∈ eraseP σ.vol.pending id := hq
-          have h1 := (h.per _ ht).b q (mem_eraseP hq') p hm hst ⟨hk', rfl⟩
-          have h2 : q.id ≠ id := by
-            have := (List.mem_filter.mp hq').2
-            simpa using this
-          exact h2 (by rw [h1, hid])
-        · intro _ _; rfl
-        · intro ht ha
-          exact absurd ((h.per _ ht).h hPS ha) (hne.2.1 _ false)
-        · intro ht hq
-          exact absurd ((h.per _ ht).i hPS hq) (hne.2.2 _)
-        · intro s _ _ hc; exact absurd hc (hne.1 s)
-        · intro s b hc; exact absurd hc (hne.2.1 s b)
-        · intro s hc; exact absurd hc (hne.2.2 s)
-        · intro hr; exact absurd hr (quiet_procRemove _ _).1
-        · intro recd cur hr; simp [setPc, recInfo] at hr
-        · intro l hl; simp [setPc, pendingDrain] at hl
-      · rename_i hk
-        have hk' : p.req.kind ≠ .stop := by simpa using hk
-        apply nd_sub_plain h hne
-        · exact quiet_nextProc _ _
-        · rfl
-        · intro s; exact stopIn_snoc_nonstop hk' s
-        · intro s; exact stopCount_snoc_nonstop hk' s
-        · exact fun s hs => hs
-        · exact fun s hs => hs
-        · intro q hq; exact Or.inl ⟨q, mem_eraseP hq, rfl, rfl⟩
-        · exact Or.inl rfl
-    · -- not acknowledged: retry count, or abandoned
-      split
-      · apply nd_sub_plain h hne
-        · exact quiet_nextProc _ _
-        · rfl
-        · exact fun _ => Iff.rfl
-        · exact fun _ => rfl
-        · exact fun s hs => hs
-        · exact fun s hs => hs
-        · intro q hq; exact Or.inl ⟨q, mem_eraseP hq, rfl, rfl⟩
-        · exact Or.inl rfl
-      · apply nd_sub_plain h hne
-        · exact quiet_nextProc _ _
-        · rfl
-        · exact fun _ => Iff.rfl
-        · exact fun _ => rfl
-        · exact fun s hs => hs
-        · exact fun s hs => hs
-        · intro q hq
-          simp only [setPc, noteOrd, List.mem_map] at hq
-          obtain ⟨q0, hq0, e⟩ := hq
-          left
-          refine ⟨q0, hq0, ?_, ?_⟩ <;> (split at e <;> (subst e; rfl))
-        · exact Or.inl rfl
-
-theorem nd_tickProcRemove {σ : State} (h : ND σ) {k : Nat} {rest : List Nat}
-    (heq : σ.vol.pc = some (.procRemove k rest)) : ND (tickProcRemove σ k rest) := by
-  unfold tickProcRemove
-  have hq := quiet_nextProc σ.vol.pending rest
-  have hn := noExcuse_nextProc σ.vol.pending rest
-  by_cases hA : (lookup σ.vol.sessions k).isSome = true
-  · simp only [hA, if_true]
-    apply nd_sub (σ' := setPc σ (nextProc σ.vol.pending rest)) h rfl (fun _ => Iff.rfl) (fun _ => rfl)
-      (fun s hs => hs) (fun s hs => hs) (fun p hp => Or.inl ⟨p, hp, rfl, rfl⟩) (Or.inl rfl)
-    · intro s ht hl hc
-      rw [heq] at hc
-      simp only [cleans] at hc
-      subst hc
-      -- an accepted Stop and the session still in memory: the frame has no excuse for that
-      have := (h.per k ht).f hl hA
-      rw [heq] at this
-      rcases this with e | ⟨l, hl', _⟩
-      · simp at e
-      · simp [pendingDrain] at hl'
-    · intro s b hc
-      rw [heq] at hc
-      rcases hc with e | ⟨l, hl', _⟩
-      · simp at e
-      · simp [pendingDrain] at hl'
-    · intro s hc; rw [heq] at hc; simp [covers] at hc
-    · intro hr; exact absurd hr hq.1
-    · intro recd cur hr; simp only [setPc] at hr; rw [hq.2.1] at hr; simp at hr
-    · intro l hl; simp only [setPc] at hl; rw [hq.2.2] at hl; simp at hl
-  · simp only [hA]
-    apply nd_sub (σ' := setPc (removeFile σ k) (nextProc (removeFile σ k).vol.pending rest)) h rfl
-      (fun _ => Iff.rfl) (fun _ => rfl) (fun s hs => hs)
-    · intro s hs
-      unfold FS at hs ⊢
-      simp only [setPc, removeFile, lookup_erase] at hs
-      split at hs
-      · simp at hs
-      · exact hs
-    · exact fun p hp => Or.inl ⟨p, hp, rfl, rfl⟩
-    · exact Or.inl rfl
-    · intro s _ _ hc
-      rw [heq] at hc
-      simp only [cleans] at hc
-      subst hc
-      right
-      unfold FS
-      simp [setPc, removeFile]
-    · intro s b hc
-      rw [heq] at hc
-      rcases hc with e | ⟨l, hl', _⟩
-      · simp at e
-      · simp [pendingDrain] at hl'
-    · intro s hc; rw [heq] at hc; simp [covers] at hc
-    · intro hr; exact absurd hr hq.1
-    · intro recd cur hr
-      have : recInfo (nextProc σ.vol.pending rest) = none := hq.2.1
-      simp only [setPc, removeFile] at hr
-      rw [this] at hr; simp at hr
-    · intro l hl
-      have : pendingDrain (nextProc σ.vol.pending rest) = none := hq.2.2
-      simp only [setPc, removeFile] at hl
-      rw [this] at hl; simp at hl
+    · exact nd_send_nonstop h hne _ .down (by simp) none quiet_none
+    · exact nd_send_nonstop h hne _ .lost (by simp) none quiet_none
 
 
 /-! ### the shutdown drain -/
@@ -943,15 +869,13 @@ theorem pendingDrain_nextDrain (rest : List Nat) : pendingDrain (some (nextDrain
   cases rest <;> rfl
 theorem recInfo_nextDrain (rest : List Nat) : recInfo (some (nextDrain rest)) = none := by
   cases rest <;> rfl
-theorem cleans_nextDrain (rest : List Nat) (s : Nat) : ¬ cleans (some (nextDrain rest)) s := by
-  cases rest <;> simp [nextDrain, cleans]
-theorem covers_nextDrain (rest : List Nat) (s : Nat) : ¬ covers (some (nextDrain rest)) s := by
-  cases rest <;> simp [nextDrain, covers]
+theorem isRec_nextDrain (rest : List Nat) : ¬ isRec (some (nextDrain rest)) := by
+  cases rest <;> simp [nextDrain, isRec]
 
 theorem exA_drain_transfer {pc pc' : Option Frame} {l l' : List Nat} (h1 : pendingDrain pc = some l)
     (h2 : pendingDrain pc' = some l') (hsub : ∀ x ∈ l', x ∈ l) (hns : ∀ s b, pc ≠ some (.stopDelete s b))
-    (s : Nat) (b : Bool) (hc : exA pc s b) : exA pc' s b := by
-  rcases hc with e | ⟨l0, hl0, hn⟩
+    (s : Nat) (hc : exA pc s) : exA pc' s := by
+  rcases hc with ⟨b, e⟩ | ⟨l0, hl0, hn⟩
   · exact absurd e (hns s b)
   · rw [h1] at hl0
     simp only [Option.some.injEq] at hl0
@@ -959,7 +883,7 @@ theorem exA_drain_transfer {pc pc' : Option Frame} {l l' : List Nat} (h1 : pendi
     exact Or.inr ⟨l', h2, fun hx => hn (hsub s hx)⟩
 
 theorem nd_tickDrainSend {σ : State} (h : ND σ) {k : Nat} {rest : List Nat}
-    (heq : σ.vol.pc = some (.drainSend k rest)) (a : Bool) : ND (tickDrainSend σ k rest a) := by
+    (heq : σ.vol.pc = some (.drainSend k rest)) (a : Ans) : ND (tickDrainSend σ k rest a) := by
   have hpd : pendingDrain σ.vol.pc = some (k :: rest) := by rw [heq]; rfl
   have hnd : (k :: rest).Nodup := h.dr _ hpd
   have hkr : k ∉ rest := (List.nodup_cons.mp hnd).1
@@ -967,66 +891,73 @@ theorem nd_tickDrainSend {σ : State} (h : ND σ) {k : Nat} {rest : List Nat}
   have hns : ∀ s b, σ.vol.pc ≠ some (.stopDelete s b) := by intro s b; rw [heq]; simp
   have noCl : ∀ s, ¬ cleans σ.vol.pc s := by intro s; rw [heq]; simp [cleans]
   have noCv : ∀ s, ¬ covers σ.vol.pc s := by intro s; rw [heq]; simp [covers]
-  have noEx : ∀ b, ¬ exA σ.vol.pc k b := by
-    intro b hc
-    rcases hc with e | ⟨l, hl, hn⟩
+  have noEx : ¬ exA σ.vol.pc k := by
+    intro hc
+    rcases hc with ⟨b, e⟩ | ⟨l, hl, hn⟩
     · exact hns k b e
     · rw [hpd] at hl; simp only [Option.some.injEq] at hl; subst hl; exact hn List.mem_cons_self
+  have hexT : ∀ s, exA σ.vol.pc s → exA (some (nextDrain rest)) s ∨ ¬ AS σ s := fun s hc =>
+    Or.inl (exA_drain_transfer hpd (pendingDrain_nextDrain rest) (fun x hx => List.mem_cons_of_mem _ hx) hns s hc)
+  have hdrT : ∀ l, pendingDrain (some (nextDrain rest)) = some l → l.Nodup := by
+    intro l hl
+    rw [pendingDrain_nextDrain] at hl
+    simp only [Option.some.injEq] at hl; subst hl; exact hrn
   unfold tickDrainSend
   split
-  · apply nd_sub (σ' := setPc σ (some (nextDrain rest))) h rfl (fun _ => Iff.rfl) (fun _ => rfl)
+  · apply nd_sub (σ' := setPc σ (some (nextDrain rest))) h rfl rfl rfl (fun _ _ hd => hd)
       (fun s hs => hs) (fun s hs => hs) (fun p hp => Or.inl ⟨p, hp, rfl, rfl⟩) (Or.inl rfl)
     · intro s _ _ hc; exact absurd hc (noCl s)
-    · intro s b hc
-      exact Or.inl (exA_drain_transfer hpd (pendingDrain_nextDrain rest) (fun x hx => List.mem_cons_of_mem _ hx) hns s b hc)
+    · exact hexT
     · intro s hc; exact absurd hc (noCv s)
-    · intro hr; cases rest <;> simp [setPc, nextDrain, isRec] at hr
+    · intro hr; exact absurd hr (isRec_nextDrain rest)
     · intro recd cur hr; simp only [setPc] at hr; rw [recInfo_nextDrain] at hr; simp at hr
-    · intro l hl; simp only [setPc] at hl; rw [pendingDrain_nextDrain] at hl
-      simp only [Option.some.injEq] at hl; subst hl; exact hrn
+    · exact hdrT
+    · intro hr; exact absurd hr (isRec_nextDrain rest)
   · rename_i x hx
     have hAS : AS σ k := by unfold AS; rw [hx]; rfl
-    have noStop : k ∉ σ.tainted → ¬ stopIn σ.log k := fun ht hl => noEx true ((h.per k ht).f hl hAS)
-    have noPS : k ∉ σ.tainted → ¬ PS σ k := fun ht hp => noEx false ((h.per k ht).h hp hAS)
+    have noStop : k ∉ σ.tainted → ¬ ackd σ k := fun ht hl => noEx ((h.per k ht).f hl hAS)
+    have noPS : k ∉ σ.tainted → ¬ PS σ k := fun ht hp => noEx ((h.per k ht).h hp hAS)
     have noQS : k ∉ σ.tainted → ¬ QS σ k := fun ht => (h.per k ht).j hAS
     dsimp only
     split
-    · apply nd_ack h (stopRec k x 11 (counters (noteOrd σ k) k)) rfl
-      · rfl
-      · rfl
-      · exact noStop
-      · exact fun s hs => hs
-      · exact fun s hs => hs
-      · exact fun p hp => ⟨p, hp, rfl, rfl⟩
-      · rfl
+    · apply nd_ackA (σ' := setPc (accept (noteOrd σ k) (stopRec k x 11 (counters (noteOrd σ k) k)) true)
+        (some (.drainRemove k rest))) h k rfl rfl
+        (acked_accept_stop (σ := noteOrd σ k) (r := stopRec k x 11 (counters (noteOrd σ k) k)) rfl)
+        (dup_after_accept (σ := noteOrd σ k) (r := stopRec k x 11 (counters (noteOrd σ k) k)) (b := true) noStop)
+        (fun s hs => hs) (fun s hs => hs) (fun p hp => ⟨p, hp, rfl, rfl⟩) rfl
       · exact noPS
       · intro _ _; rfl
       · intro _ _; exact Or.inr ⟨rest, rfl, hkr⟩
       · intro ht hq; exact absurd hq (noQS ht)
       · intro s _ _ hc; exact absurd hc (noCl s)
-      · intro s b hc
+      · intro s hc
         exact Or.inl (exA_drain_transfer hpd (pc' := some (.drainRemove k rest)) rfl
-          (fun x hx => List.mem_cons_of_mem _ hx) hns s b hc)
+          (fun x hx => List.mem_cons_of_mem _ hx) hns s hc)
       · intro s hc; exact absurd hc (noCv s)
       · intro hr; simp [setPc, isRec] at hr
       · intro recd cur hr; simp [setPc, recInfo] at hr
       · intro l hl
         simp only [setPc, pendingDrain, Option.some.injEq] at hl
         subst hl; exact hrn
-    · have := nd_enqueue_stop h (stopRec k x 11 (counters (noteOrd σ k) k)) false rfl (some (nextDrain rest))
-        (fun τ => noteOrd τ k) (fun τ => ⟨rfl, rfl, rfl, rfl⟩) noPS noStop
+      · intro hr; simp [setPc, isRec] at hr
+    · exact nd_enqueue_stop (τ := noteOrd σ k) h (stopRec k x 11 (counters (noteOrd σ k) k)) false rfl
+        (some (nextDrain rest)) ⟨rfl, rfl, rfl, rfl⟩ (fun _ _ hd => hd) noPS noStop
         (fun _ _ => Or.inr ⟨rest, pendingDrain_nextDrain rest, hkr⟩)
         (fun ht hq => absurd hq (noQS ht))
-        (fun s _ _ hc => absurd hc (noCl s))
-        (fun s b hc => Or.inl (exA_drain_transfer hpd (pendingDrain_nextDrain rest)
-          (fun x hx => List.mem_cons_of_mem _ hx) hns s b hc))
-        (fun s hc => absurd hc (noCv s))
-        (fun hr => by cases rest <;> simp [nextDrain, isRec] at hr)
+        (fun s _ _ hc => absurd hc (noCl s)) hexT (fun s hc => absurd hc (noCv s))
+        (fun hr => absurd hr (isRec_nextDrain rest))
         (fun recd cur hr => by rw [recInfo_nextDrain] at hr; simp at hr)
-        (fun l hl => by
-          rw [pendingDrain_nextDrain] at hl
-          simp only [Option.some.injEq] at hl; subst hl; exact hrn)
-      exact this
+        hdrT (fun hr => absurd hr (isRec_nextDrain rest))
+    · obtain ⟨l1, l2⟩ := lost_state (σ := noteOrd σ k) (stopRec k x 11 (counters (noteOrd σ k) k)) noStop
+      exact nd_enqueue_stop (τ := accept (noteOrd σ k) (stopRec k x 11 (counters (noteOrd σ k) k)) false) h
+        (stopRec k x 11 (counters (noteOrd σ k) k)) false rfl
+        (some (nextDrain rest)) l1 l2 noPS noStop
+        (fun _ _ => Or.inr ⟨rest, pendingDrain_nextDrain rest, hkr⟩)
+        (fun ht hq => absurd hq (noQS ht))
+        (fun s _ _ hc => absurd hc (noCl s)) hexT (fun s hc => absurd hc (noCv s))
+        (fun hr => absurd hr (isRec_nextDrain rest))
+        (fun recd cur hr => by rw [recInfo_nextDrain] at hr; simp at hr)
+        hdrT (fun hr => absurd hr (isRec_nextDrain rest))
 
 theorem nd_tickDrainRemove {σ : State} (h : ND σ) {k : Nat} {rest : List Nat}
     (heq : σ.vol.pc = some (.drainRemove k rest)) : ND (tickDrainRemove σ k rest) := by
@@ -1034,7 +965,7 @@ theorem nd_tickDrainRemove {σ : State} (h : ND σ) {k : Nat} {rest : List Nat}
   have hrn : rest.Nodup := h.dr _ hpd
   have hns : ∀ s b, σ.vol.pc ≠ some (.stopDelete s b) := by intro s b; rw [heq]; simp
   unfold tickDrainRemove
-  apply nd_sub (σ' := setPc (removeFile σ k) (some (nextDrain rest))) h rfl (fun _ => Iff.rfl) (fun _ => rfl)
+  apply nd_sub (σ' := setPc (removeFile σ k) (some (nextDrain rest))) h rfl rfl rfl (fun _ _ hd => hd)
     (fun s hs => hs)
   · intro s hs
     unfold FS at hs ⊢
@@ -1049,43 +980,55 @@ theorem nd_tickDrainRemove {σ : State} (h : ND σ) {k : Nat} {rest : List Nat}
     simp only [cleans] at hc
     subst hc
     right; unfold FS; simp [setPc, removeFile]
-  · intro s b hc
-    exact Or.inl (exA_drain_transfer hpd (pendingDrain_nextDrain rest) (fun x hx => hx) hns s b hc)
+  · intro s hc
+    exact Or.inl (exA_drain_transfer hpd (pendingDrain_nextDrain rest) (fun x hx => hx) hns s hc)
   · intro s hc; rw [heq] at hc; simp [covers] at hc
-  · intro hr; cases rest <;> simp [setPc, nextDrain, isRec] at hr
+  · intro hr; exact absurd hr (isRec_nextDrain rest)
   · intro recd cur hr; simp only [setPc] at hr; rw [recInfo_nextDrain] at hr; simp at hr
   · intro l hl; simp only [setPc] at hl; rw [pendingDrain_nextDrain] at hl
     simp only [Option.some.injEq] at hl; subst hl; exact hrn
+  · intro hr; exact absurd hr (isRec_nextDrain rest)
 
 theorem nd_tickPersistPending {σ : State} (h : ND σ) (heq : σ.vol.pc = some .persistPending) :
     ND (tickPersistPending σ) := by
   unfold tickPersistPending
-  apply nd_gen h
-  · rfl
-  · exact fun _ => Iff.rfl
-  · exact fun _ => rfl
-  · intro s _ hs; unfold AS at hs; simp at hs
-  · intro s _ hs
-    left
-    unfold FS at hs ⊢
-    dsimp only at hs
-    split at hs <;> exact hs
-  · intro p hp; simp at hp
-  · intro s _ _ p hp; simp at hp
-  · intro ps' hps'
-    dsimp only at hps'
-    split at hps'
-    · exact Or.inl hps'
-    · right
-      simp only [Option.some.injEq] at hps'
-      subst hps'
-      exact ⟨fun p hp => ⟨p, hp, rfl, rfl⟩, rfl, rfl⟩
-  · intro s _ _ hc; rw [heq] at hc; simp [cleans] at hc
-  · intro s b _; right; unfold AS; simp
-  · intro s hc; rw [heq] at hc; simp [covers] at hc
-  · intro hr; simp [isRec] at hr
-  · intro recd cur hr; simp [recInfo] at hr
-  · intro l hl; simp [pendingDrain] at hl
+  split
+  · exact h
+  · rename_i hpp
+    have hppc : σ.vol.ppc = none := by
+      cases e : σ.vol.ppc with
+      | none => rfl
+      | some f => rw [e] at hpp; simp at hpp
+    apply nd_gen h
+    · rfl
+    · rfl
+    · exact fun _ _ hd => hd
+    · intro s _ hs; unfold AS at hs; simp at hs
+    · intro s _ hs
+      left
+      unfold FS at hs ⊢
+      dsimp only at hs
+      split at hs <;> exact hs
+    · intro p hp; simp at hp
+    · intro s _ _ p hp; simp at hp
+    · intro ps' hps'
+      dsimp only at hps'
+      split at hps'
+      · exact Or.inl hps'
+      · right
+        simp only [Option.some.injEq] at hps'
+        subst hps'
+        exact ⟨fun p hp => ⟨p, hp, rfl, rfl⟩, rfl, rfl⟩
+    · intro s _ _ hc
+      rcases hc with h1 | h1
+      · rw [heq] at h1; simp [cleans] at h1
+      · rw [hppc] at h1; simp [cleans] at h1
+    · intro s _; right; unfold AS; simp
+    · intro s hc; rw [heq] at hc; simp [covers] at hc
+    · intro hr; simp [isRec] at hr
+    · intro recd cur hr; simp [recInfo] at hr
+    · intro l hl; simp [pendingDrain] at hl
+    · intro _; rfl
 
 
 /-! ### the recovery procedure -/
@@ -1097,28 +1040,32 @@ theorem covers_nextRec (recd order rest : List Nat) (s : Nat) :
   cases rest <;> rfl
 theorem pendingDrain_nextRec (recd order rest : List Nat) : pendingDrain (some (nextRec recd order rest)) = none := by
   cases rest <;> rfl
-theorem cleans_nextRec (recd order rest : List Nat) (s : Nat) : ¬ cleans (some (nextRec recd order rest)) s := by
-  cases rest <;> simp [nextRec, cleans]
 
 theorem nd_tickRecSend {σ : State} (h : ND σ) {k : Nat} {rest recd order : List Nat}
-    (heq : σ.vol.pc = some (.recSend k rest recd order)) (a : Bool) : ND (tickRecSend σ k rest recd order a) := by
+    (heq : σ.vol.pc = some (.recSend k rest recd order)) (a : Ans) : ND (tickRecSend σ k rest recd order a) := by
   have hrec : isRec σ.vol.pc := by rw [heq]; trivial
   have hsess : σ.vol.sessions = [] := h.r1 hrec
   have noAS : ∀ s, ¬ AS σ s := by intro s; unfold AS; rw [hsess]; simp
   obtain ⟨r2a, r2b⟩ := h.r2 recd none (by rw [heq]; rfl)
   have noCl : ∀ s, ¬ cleans σ.vol.pc s := by intro s; rw [heq]; simp [cleans]
-  have noEx : ∀ s b, ¬ exA σ.vol.pc s b := by
-    intro s b hc; rw [heq] at hc
-    rcases hc with e | ⟨l, hl, _⟩
+  have noEx : ∀ s, ¬ exA σ.vol.pc s := by
+    intro s hc; rw [heq] at hc
+    rcases hc with ⟨b, e⟩ | ⟨l, hl, _⟩
     · simp at e
     · simp [pendingDrain] at hl
+  have hppc : σ.vol.ppc = none := h.rp hrec
+  have noCl' : ∀ s, ¬ cl σ s := by
+    intro s hc
+    rcases hc with h1 | h1
+    · exact noCl s h1
+    · rw [hppc] at h1; simp [cleans] at h1
   have hcv : ∀ s, covers σ.vol.pc s ↔ s ∈ recd := by intro s; rw [heq]; rfl
   unfold tickRecSend
   split
-  · apply nd_sub (σ' := setPc σ (some (nextRec recd order rest))) h rfl (fun _ => Iff.rfl) (fun _ => rfl)
+  · apply nd_sub (σ' := setPc σ (some (nextRec recd order rest))) h rfl rfl rfl (fun _ _ hd => hd)
       (fun s hs => hs) (fun s hs => hs) (fun p hp => Or.inl ⟨p, hp, rfl, rfl⟩) (Or.inl rfl)
     · intro s _ _ hc; exact absurd hc (noCl s)
-    · intro s b hc; exact absurd hc (noEx s b)
+    · intro s hc; exact absurd hc (noEx s)
     · intro s hc; left; exact (covers_nextRec recd order rest s).mpr ((hcv s).mp hc)
     · intro _; exact hsess
     · intro recd' cur hr
@@ -1129,57 +1076,69 @@ theorem nd_tickRecSend {σ : State} (h : ND σ) {k : Nat} {rest recd order : Lis
       subst e1; subst e2
       exact ⟨r2a, r2b⟩
     · intro l hl; simp only [setPc] at hl; rw [pendingDrain_nextRec] at hl; simp at hl
+    · exact fun _ => hrec
   · rename_i x hx
     have hFS : FS σ k := by unfold FS; rw [hx]; rfl
     have knr : k ∉ recd := fun hm => r2a k hm hFS
-    have noStop : k ∉ σ.tainted → ¬ stopIn σ.log k := fun ht hl => noCl k ((h.per k ht).e hl hFS)
+    have noStop : k ∉ σ.tainted → ¬ ackd σ k := fun ht hl => noCl' k ((h.per k ht).e hl hFS)
     have noPS : ¬ PS σ k := by
       rintro ⟨p, hp, hst⟩
       rcases r2b p hp k hst with h1 | h1
       · exact knr h1
       · simp at h1
+    have hr2T : ∀ recd' cur, recInfo (some (.recRemove k rest recd order)) = some (recd', cur) →
+        (∀ x ∈ recd', ¬ FS σ x) ∧ (cur = some k ∨ k ∈ recd') ∧
+        (∀ p ∈ σ.vol.pending, ∀ s, isStop p s → s ∈ recd' ∨ cur = some s) := by
+      intro recd' cur hr
+      simp only [recInfo, Option.some.injEq, Prod.mk.injEq] at hr
+      obtain ⟨e1, e2⟩ := hr
+      subst e1; subst e2
+      refine ⟨r2a, Or.inl rfl, ?_⟩
+      intro p hp s hst
+      rcases r2b p hp s hst with h1 | h1
+      · exact Or.inl h1
+      · simp at h1
     cases a with
-    | true =>
-      apply nd_ack (σ' := setPc (send σ (stopRec k x (if x.stopCause = 0 then 11 else x.stopCause)
-        (x.lastIn, x.lastOut)) true true) (some (.recRemove k rest recd order))) h
-        (stopRec k x (if x.stopCause = 0 then 11 else x.stopCause) (x.lastIn, x.lastOut)) rfl rfl rfl noStop
+    | up =>
+      apply nd_ackA (σ' := setPc (send σ (stopRec k x (if x.stopCause = 0 then 11 else x.stopCause)
+        (x.lastIn, x.lastOut)) .up true) (some (.recRemove k rest recd order))) h k rfl rfl
+        (acked_accept_stop (σ := σ)
+          (r := stopRec k x (if x.stopCause = 0 then 11 else x.stopCause) (x.lastIn, x.lastOut)) rfl)
+        (dup_after_accept (σ := σ)
+          (r := stopRec k x (if x.stopCause = 0 then 11 else x.stopCause) (x.lastIn, x.lastOut)) (b := true) noStop)
         (fun s hs => hs) (fun s hs => hs) (fun p hp => ⟨p, hp, rfl, rfl⟩) rfl
       · exact fun _ => noPS
       · intro _ _; rfl
       · intro _ ha; exact absurd ha (noAS k)
       · intro _ _; exact Or.inl rfl
       · intro s _ _ hc; exact absurd hc (noCl s)
-      · intro s b hc; exact absurd hc (noEx s b)
+      · intro s hc; exact absurd hc (noEx s)
       · intro s hc; left; exact Or.inr ((hcv s).mp hc)
       · intro _; exact hsess
       · intro recd' cur hr
-        simp only [setPc, recInfo, Option.some.injEq, Prod.mk.injEq] at hr
-        obtain ⟨e1, e2⟩ := hr
-        subst e1; subst e2
-        refine ⟨r2a, ?_⟩
-        intro p hp s hst
-        rcases r2b p hp s hst with h1 | h1
-        · exact Or.inl h1
-        · simp at h1
+        obtain ⟨a1, _, a3⟩ := hr2T recd' cur hr
+        exact ⟨a1, a3⟩
       · intro l hl; simp [setPc, pendingDrain] at hl
-    | false =>
-      have := nd_enqueue_stop h (stopRec k x (if x.stopCause = 0 then 11 else x.stopCause) (x.lastIn, x.lastOut))
-        true rfl (some (.recRemove k rest recd order)) id (fun τ => ⟨rfl, rfl, rfl, rfl⟩)
+      · exact fun _ => hrec
+    | down =>
+      exact nd_enqueue_stop (τ := σ) h
+        (stopRec k x (if x.stopCause = 0 then 11 else x.stopCause) (x.lastIn, x.lastOut))
+        true rfl (some (.recRemove k rest recd order)) ⟨rfl, rfl, rfl, rfl⟩ (fun _ _ hd => hd)
         (fun _ => noPS) noStop (fun _ ha => absurd ha (noAS k)) (fun _ _ => Or.inl rfl)
-        (fun s _ _ hc => absurd hc (noCl s)) (fun s b hc => absurd hc (noEx s b))
+        (fun s _ _ hc => absurd hc (noCl s)) (fun s hc => absurd hc (noEx s))
         (fun s hc => Or.inl (Or.inr ((hcv s).mp hc)))
-        (fun _ => hsess)
-        (fun recd' cur hr => by
-          simp only [recInfo, Option.some.injEq, Prod.mk.injEq] at hr
-          obtain ⟨e1, e2⟩ := hr
-          subst e1; subst e2
-          refine ⟨r2a, Or.inl rfl, ?_⟩
-          intro p hp s hst
-          rcases r2b p hp s hst with h1 | h1
-          · exact Or.inl h1
-          · simp at h1)
-        (fun l hl => by simp [pendingDrain] at hl)
-      exact this
+        (fun _ => hsess) hr2T (fun l hl => by simp [pendingDrain] at hl) (fun _ => hrec)
+    | lost =>
+      obtain ⟨l1, l2⟩ := lost_state (σ := σ)
+        (stopRec k x (if x.stopCause = 0 then 11 else x.stopCause) (x.lastIn, x.lastOut)) noStop
+      exact nd_enqueue_stop
+        (τ := accept σ (stopRec k x (if x.stopCause = 0 then 11 else x.stopCause) (x.lastIn, x.lastOut)) false) h
+        (stopRec k x (if x.stopCause = 0 then 11 else x.stopCause) (x.lastIn, x.lastOut))
+        true rfl (some (.recRemove k rest recd order)) l1 l2
+        (fun _ => noPS) noStop (fun _ ha => absurd ha (noAS k)) (fun _ _ => Or.inl rfl)
+        (fun s _ _ hc => absurd hc (noCl s)) (fun s hc => absurd hc (noEx s))
+        (fun s hc => Or.inl (Or.inr ((hcv s).mp hc)))
+        (fun _ => hsess) hr2T (fun l hl => by simp [pendingDrain] at hl) (fun _ => hrec)
 
 theorem nd_tickRecRemove {σ : State} (h : ND σ) {k : Nat} {rest recd order : List Nat}
     (heq : σ.vol.pc = some (.recRemove k rest recd order)) : ND (tickRecRemove σ k rest recd order) := by
@@ -1187,8 +1146,8 @@ theorem nd_tickRecRemove {σ : State} (h : ND σ) {k : Nat} {rest recd order : L
   have hsess : σ.vol.sessions = [] := h.r1 hrec
   obtain ⟨r2a, r2b⟩ := h.r2 recd (some k) (by rw [heq]; rfl)
   unfold tickRecRemove
-  apply nd_sub (σ' := setPc (removeFile σ k) (some (nextRec (k :: recd) order rest))) h rfl
-    (fun _ => Iff.rfl) (fun _ => rfl) (fun s hs => hs)
+  apply nd_sub (σ' := setPc (removeFile σ k) (some (nextRec (k :: recd) order rest))) h rfl rfl rfl
+    (fun _ _ hd => hd) (fun s hs => hs)
   · intro s hs
     unfold FS at hs ⊢
     simp only [setPc, removeFile, lookup_erase] at hs
@@ -1202,9 +1161,9 @@ theorem nd_tickRecRemove {σ : State} (h : ND σ) {k : Nat} {rest recd order : L
     simp only [cleans] at hc
     subst hc
     right; unfold FS; simp [setPc, removeFile]
-  · intro s b hc
+  · intro s hc
     rw [heq] at hc
-    rcases hc with e | ⟨l, hl, _⟩
+    rcases hc with ⟨b, e⟩ | ⟨l, hl, _⟩
     · simp at e
     · simp [pendingDrain] at hl
   · intro s hc
@@ -1237,24 +1196,25 @@ theorem nd_tickRecRemove {σ : State} (h : ND σ) {k : Nat} {rest recd order : L
       · exact List.mem_cons_of_mem _ h1
       · simp only [Option.some.injEq] at h1; rw [h1]; exact List.mem_cons_self
   · intro l hl; simp only [setPc] at hl; rw [pendingDrain_nextRec] at hl; simp at hl
+  · exact fun _ => hrec
 
 theorem nd_tickRecPendRemove {σ : State} (h : ND σ) (heq : σ.vol.pc = some .recPendRemove) :
     ND (tickRecPendRemove σ) := by
   unfold tickRecPendRemove
-  apply nd_sub (σ' := setPc { σ with dur := { σ.dur with pfile := none } } none) h rfl
-    (fun _ => Iff.rfl) (fun _ => rfl) (fun s hs => hs) (fun s hs => hs)
+  apply nd_sub (σ' := setPc { σ with dur := { σ.dur with pfile := none } } none) h rfl rfl rfl
+    (fun _ _ hd => hd) (fun s hs => hs) (fun s hs => hs)
     (fun p hp => Or.inl ⟨p, hp, rfl, rfl⟩) (Or.inr rfl)
   · intro s _ _ hc; rw [heq] at hc; simp [cleans] at hc
-  · intro s b hc
+  · intro s hc
     rw [heq] at hc
-    rcases hc with e | ⟨l, hl, _⟩
+    rcases hc with ⟨b, e⟩ | ⟨l, hl, _⟩
     · simp at e
     · simp [pendingDrain] at hl
   · intro s _; right; unfold QS; simp [setPc]
   · intro hr; simp [setPc, isRec] at hr
   · intro recd cur hr; simp [setPc, recInfo] at hr
   · intro l hl; simp [setPc, pendingDrain] at hl
-
+  · intro hr; simp [setPc, isRec] at hr
 
 theorem nd_tickRecLoad {σ : State} (h : ND σ) {recd order : List Nat}
     (heq : σ.vol.pc = some (.recLoad recd order)) : ND (tickRecLoad σ recd order) := by
@@ -1262,25 +1222,25 @@ theorem nd_tickRecLoad {σ : State} (h : ND σ) {recd order : List Nat}
   have hsess : σ.vol.sessions = [] := h.r1 hrec
   obtain ⟨r2a, r2b⟩ := h.r2 recd none (by rw [heq]; rfl)
   have noCl : ∀ s, ¬ cleans σ.vol.pc s := by intro s; rw [heq]; simp [cleans]
-  have noEx : ∀ s b, ¬ exA σ.vol.pc s b := by
-    intro s b hc; rw [heq] at hc
-    rcases hc with e | ⟨l, hl, _⟩
+  have noEx : ∀ s, ¬ exA σ.vol.pc s := by
+    intro s hc; rw [heq] at hc
+    rcases hc with ⟨b, e⟩ | ⟨l, hl, _⟩
     · simp at e
     · simp [pendingDrain] at hl
   unfold tickRecLoad
   split
   · rename_i hpf
-    apply nd_sub (σ' := setPc σ none) h rfl (fun _ => Iff.rfl) (fun _ => rfl)
+    apply nd_sub (σ' := setPc σ none) h rfl rfl rfl (fun _ _ hd => hd)
       (fun s hs => hs) (fun s hs => hs) (fun p hp => Or.inl ⟨p, hp, rfl, rfl⟩) (Or.inl rfl)
     · intro s _ _ hc; exact absurd hc (noCl s)
-    · intro s b hc; exact absurd hc (noEx s b)
+    · intro s hc; exact absurd hc (noEx s)
     · intro s _; right; unfold QS; simp [setPc, hpf]
     · intro hr; simp [setPc, isRec] at hr
     · intro recd' cur hr; simp [setPc, recInfo] at hr
     · intro l hl; simp [setPc, pendingDrain] at hl
+    · intro hr; simp [setPc, isRec] at hr
   · rename_i ps hps
     have sp := loadPending_spec σ recd (recOfIds ps (normalize order (ps.map (·.id))))
-    -- the loaded copy of a record of pending.json
     have loadedOf : ∀ p ∈ (loadPending σ recd (recOfIds ps (normalize order (ps.map (·.id))))).vol.pending,
         p ∈ σ.vol.pending ∨ ∃ q ∈ ps, p = { q with viaRecovery := true } ∧
           ¬ (q.req.kind = .stop ∧ q.req.sid ∈ recd) := by
@@ -1293,23 +1253,28 @@ theorem nd_tickRecLoad {σ : State} (h : ND σ) {recd order : List Nat}
       rcases r2b p hp s hst with h1 | h1
       · exact hs h1
       · simp at h1
-    apply nd_gen (σ' := setPc (loadPending σ recd (recOfIds ps (normalize order (ps.map (·.id)))))
+    have eSess : (setPc (loadPending σ recd (recOfIds ps (normalize order (ps.map (·.id)))))
+        (some .recPendRemove)).vol.sessions = σ.vol.sessions := sp.sessions
+    have eDur : (setPc (loadPending σ recd (recOfIds ps (normalize order (ps.map (·.id)))))
+        (some .recPendRemove)).dur = σ.dur := sp.dur
+    apply nd_genA (σ' := setPc (loadPending σ recd (recOfIds ps (normalize order (ps.map (·.id)))))
       (some .recPendRemove)) h
+    · exact sp.ppc
     · exact sp.tainted
-    · intro s; show stopIn (loadPending σ recd _).log s ↔ _; rw [sp.log]
-    · intro s; show stopCount (loadPending σ recd _).log s = _; rw [sp.log]
+    · exact (loadPending_acks σ recd _).1
+    · intro s _ hd
+      rw [show (setPc (loadPending σ recd (recOfIds ps (normalize order (ps.map (·.id)))))
+        (some .recPendRemove)).dup = (loadPending σ recd (recOfIds ps (normalize order (ps.map (·.id))))).dup from rfl,
+        (loadPending_acks σ recd _).2] at hd
+      exact hd
     · intro s _ hs
       left
       unfold AS at hs ⊢
-      have : (setPc (loadPending σ recd (recOfIds ps (normalize order (ps.map (·.id))))) (some .recPendRemove)).vol.sessions
-          = σ.vol.sessions := sp.sessions
-      rw [this] at hs; exact hs
+      rw [eSess] at hs; exact hs
     · intro s _ hs
       left
       unfold FS at hs ⊢
-      have : (setPc (loadPending σ recd (recOfIds ps (normalize order (ps.map (·.id))))) (some .recPendRemove)).dur
-          = σ.dur := sp.dur
-      rw [this] at hs; exact hs
+      rw [eDur] at hs; exact hs
     · intro p hp
       rcases loadedOf p hp with h1 | ⟨q, hq, e, hn⟩
       · exact Or.inl ⟨p, h1, rfl, rfl⟩
@@ -1326,9 +1291,7 @@ theorem nd_tickRecLoad {σ : State} (h : ND σ) {recd order : List Nat}
             exact hnr this
           · intro ha
             unfold AS at ha
-            have : (setPc (loadPending σ recd (recOfIds ps (normalize order (ps.map (·.id)))))
-                (some .recPendRemove)).vol.sessions = σ.vol.sessions := sp.sessions
-            rw [this, hsess] at ha
+            rw [eSess, hsess] at ha
             simp at ha
           · intro _; trivial
         · exact Or.inr (Or.inl hk)
@@ -1341,19 +1304,18 @@ theorem nd_tickRecLoad {σ : State} (h : ND σ) {recd order : List Nat}
           exact (h.per s ht).c ps hps p0 hp0 q0 hq0 h1 h2
     · intro ps' hps'
       left
-      have : (setPc (loadPending σ recd (recOfIds ps (normalize order (ps.map (·.id))))) (some .recPendRemove)).dur
-          = σ.dur := sp.dur
-      rw [this] at hps'; exact hps'
+      rw [eDur] at hps'; exact hps'
     · intro s _ _ hc; exact absurd hc (noCl s)
-    · intro s b hc; exact absurd hc (noEx s b)
+    · intro s hc; exact absurd hc (noEx s)
     · intro s _; left; trivial
     · intro _
       show (loadPending σ recd _).vol.sessions = []
       rw [sp.sessions]; exact hsess
     · intro recd' cur hr; simp [setPc, recInfo] at hr
     · intro l hl; simp [setPc, pendingDrain] at hl
+    · exact fun _ => hrec
 
-theorem nd_tick {σ : State} (h : ND σ) (a : Bool) : ND (tick σ a) := by
+theorem nd_tick {σ : State} (h : ND σ) (a : Ans) : ND (tick σ a) := by
   unfold tick
   split
   · exact h
@@ -1364,8 +1326,8 @@ theorem nd_tick {σ : State} (h : ND σ) (a : Bool) : ND (tick σ a) := by
   · rename_i heq; exact nd_tickStopDelete h heq
   · rename_i heq; exact nd_tickStopRemove h heq
   · rename_i heq; exact nd_tickIntSend h heq a
-  · rename_i heq; exact nd_tickProcSend h heq a
-  · rename_i heq; exact nd_tickProcRemove h heq
+  · exact h
+  · exact h
   · rename_i heq; exact nd_tickDrainSend h heq a
   · rename_i heq; exact nd_tickDrainRemove h heq
   · rename_i heq; exact nd_tickPersistPending h heq
@@ -1375,606 +1337,180 @@ theorem nd_tick {σ : State} (h : ND σ) (a : Bool) : ND (tick σ a) := by
   · rename_i heq; exact nd_tickRecPendRemove h heq
 
 
-/-! ## calls, crash, restart -/
+/-! ## the processor's micro-steps: the API program counter is untouched -/
 
-/-- a process that is down has no call in progress -/
-def IdleDown (σ : State) : Prop := σ.up = false → σ.vol.pc = none
+theorem isRec_of_recInfo {pc : Option Frame} {x : List Nat × Option Nat} (h : recInfo pc = some x) : isRec pc := by
+  cases pc with
+  | none => simp [recInfo] at h
+  | some f => cases f <;> simp [recInfo] at h <;> trivial
 
-theorem tick_up (σ : State) (a : Bool) : (tick σ a).up = σ.up ∨ (tick σ a).vol.pc = none := by
-  unfold tick
+theorem cleans_nextProc (ps : List PRec) (rest : List Nat) (s : Nat) : ¬ cleans (nextProc ps rest) s := by
+  induction rest with
+  | nil => simp [nextProc, cleans]
+  | cons id rest ih =>
+    simp only [nextProc]
+    split
+    · simp [cleans]
+    · exact ih
+
+/-- a processor step in which no Stop is acknowledged -/
+theorem nd_genP {σ σ' : State} (h : ND σ) (hnr : ¬ isRec σ.vol.pc)
+    (hpc : σ'.vol.pc = σ.vol.pc) (hsess : σ'.vol.sessions = σ.vol.sessions)
+    (ht : σ'.tainted = σ.tainted) (hAck : σ'.ackedStops = σ.ackedStops)
+    (hDup : ∀ s, s ∉ σ.tainted → s ∈ σ'.dup → s ∈ σ.dup)
+    (hF : ∀ s, FS σ' s → FS σ s)
+    (hP : ∀ p ∈ σ'.vol.pending, ∃ q ∈ σ.vol.pending, q.id = p.id ∧ q.req = p.req)
+    (hQ : σ'.dur.pfile = σ.dur.pfile)
+    (hcl : ∀ s, s ∉ σ.tainted → ackd σ s → cleans σ.vol.ppc s → cleans σ'.vol.ppc s ∨ ¬ FS σ' s) : ND σ' := by
+  apply nd_gen h ht hAck hDup
+  · intro s _ hs; left; unfold AS at hs ⊢; rw [hsess] at hs; exact hs
+  · intro s _ hs; exact Or.inl (hF s hs)
+  · intro p hp; exact Or.inl (hP p hp)
+  · intro s _ hps p hp q _ h1 _
+    obtain ⟨p0, hp0, _, e⟩ := hP p hp
+    exact absurd ⟨p0, hp0, by unfold isStop; rw [e]; exact h1⟩ hps
+  · intro ps' hps'; left; rw [← hQ]; exact hps'
+  · intro s hs ha hc
+    rcases hc with h1 | h1
+    · exact Or.inl (Or.inl (by rw [hpc]; exact h1))
+    · rcases hcl s hs ha h1 with h2 | h2
+      · exact Or.inl (Or.inr h2)
+      · exact Or.inr h2
+  · intro s hc; left; rw [hpc]; exact hc
+  · intro s hc; left; rw [hpc]; exact hc
+  · intro hr; rw [hpc] at hr; exact absurd hr hnr
+  · intro recd cur hr; rw [hpc] at hr; exact absurd (isRec_of_recInfo hr) hnr
+  · intro l hl; rw [hpc] at hl; exact h.dr l hl
+  · intro hr; rw [hpc] at hr; exact absurd hr hnr
+
+theorem nd_procFail {σ τ : State} (h : ND σ) (hnr : ¬ isRec σ.vol.pc) (p : PRec) (id : Nat) (rest : List Nat)
+    (hppc : ∀ s, ¬ cleans σ.vol.ppc s)
+    (hτ : τ.vol.pc = σ.vol.pc ∧ τ.vol.sessions = σ.vol.sessions ∧ τ.tainted = σ.tainted ∧
+      τ.ackedStops = σ.ackedStops ∧ τ.dur = σ.dur ∧ τ.vol.pending = σ.vol.pending)
+    (hτd : ∀ s, s ∉ σ.tainted → s ∈ τ.dup → s ∈ σ.dup) :
+    ND (procFail τ p id rest) := by
+  obtain ⟨t1, t2, t3, t4, t5, t6⟩ := hτ
+  unfold procFail
   split
-  · exact Or.inl rfl
-  · left; unfold tickStartSend send; repeat' (first | rfl | split)
-  · left; unfold tickStartPersist persistSession; repeat' (first | rfl | split)
-  · left; unfold tickStopPersist persistSession; repeat' (first | rfl | split)
-  · left; unfold tickStopSend send; repeat' (first | rfl | split)
-  · exact Or.inl rfl
-  · left; unfold tickStopRemove; repeat' (first | rfl | split)
-  · left; unfold tickIntSend; repeat' (first | rfl | split)
-  · left
+  · apply nd_genP h hnr t1 t2 t3 t4 hτd
+    · intro s hs; unfold FS at hs ⊢; simp only [setPpc] at hs; rw [t5] at hs; exact hs
+    · intro q hq
+      simp only [setPpc] at hq
+      rw [t6] at hq
+      exact ⟨q, mem_eraseP hq, rfl, rfl⟩
+    · show τ.dur.pfile = _; rw [t5]
+    · intro s _ _ hc; exact absurd hc (hppc s)
+  · apply nd_genP h hnr t1 t2 t3 t4 hτd
+    · intro s hs; unfold FS at hs ⊢; simp only [setPpc] at hs; rw [t5] at hs; exact hs
+    · intro q hq
+      simp only [setPpc, List.mem_map] at hq
+      rw [t6] at hq
+      obtain ⟨q0, hq0, e⟩ := hq
+      refine ⟨q0, hq0, ?_, ?_⟩ <;> (split at e <;> (subst e; rfl))
+    · show τ.dur.pfile = _; rw [t5]
+    · intro s _ _ hc; exact absurd hc (hppc s)
+
+theorem nd_ptick {σ : State} (h : ND σ) (a : Ans) : ND (ptick σ a) := by
+  unfold ptick
+  split
+  · -- procSend
+    rename_i id rest hpp
+    have hnr : ¬ isRec σ.vol.pc := by
+      intro hr
+      have := h.rp hr
+      rw [hpp] at this; simp at this
+    have noClP : ∀ s, ¬ cleans σ.vol.ppc s := by intro s; rw [hpp]; simp [cleans]
     unfold tickProcSend
     split
-    · rfl
-    · dsimp only
-      repeat' (first | rfl | split)
-  · left; unfold tickProcRemove; repeat' (first | rfl | split)
-  · left; unfold tickDrainSend; repeat' (first | rfl | split)
-  · exact Or.inl rfl
-  · exact Or.inr rfl
-  · left; unfold tickRecSend send; repeat' (first | rfl | split)
-  · exact Or.inl rfl
-  · left
-    unfold tickRecLoad
-    split
-    · rfl
-    · exact (loadPending_spec _ _ _).up
-  · exact Or.inl rfl
-
-theorem idleDown_step {σ : State} (h : IdleDown σ) (op : Op) : IdleDown (step σ op) := by
-  cases op with
-  | tick a =>
-    intro hup
-    rcases tick_up σ a with e | e
-    · have hpc := h (by rw [← e]; exact hup)
-      simp only [step]
-      rw [tick_idle a hpc]; exact hpc
-    · exact e
-  | crash => intro _; rfl
-  | ctr s i o => exact h
-  | restart order =>
-    simp only [step]
-    split
-    · exact h
-    · intro hup
-      unfold callRestart at hup
-      dsimp only at hup
-      split at hup <;> simp [setPc, begin] at hup
-  | start s ident =>
-    simp only [step]
-    split
-    · exact h
-    · rename_i hu
-      intro hup
-      split at hup
-      · simp_all
-      · unfold callStart at hup
-        split at hup <;> simp_all [setPc, begin]
-  | interim s =>
-    simp only [step]
-    split
-    · exact h
-    · rename_i hu
-      intro hup
-      split at hup
-      · simp_all
-      · unfold callInterim at hup
-        split at hup
-        · simp_all [begin]
-        · split at hup <;> simp_all [setPc, begin]
-  | stop s cause =>
-    simp only [step]
-    split
-    · exact h
-    · rename_i hu
-      intro hup
-      split at hup
-      · simp_all
-      · unfold callStop at hup
-        split at hup <;> simp_all [setPc, begin]
-  | deq =>
-    simp only [step]
-    split
-    · exact h
-    · rename_i hu
-      intro hup
-      split at hup
-      · simp_all
-      · unfold callDeq at hup
-        split at hup <;> simp_all [setPc, begin]
-  | retry order =>
-    simp only [step]
-    split
-    · exact h
-    · rename_i hu
-      intro hup
-      split at hup
-      · simp_all
-      · simp_all [callRetry, setPc, begin]
-  | shutdown order =>
-    simp only [step]
-    split
-    · exact h
-    · rename_i hu
-      intro hup
-      split at hup
-      · simp_all
-      · simp_all [callShutdown, setPc, begin]
-
-/-- a session id that was never registered is nowhere -/
-theorem nowhere_of_unregistered {σ : State} (hr : Reg σ) {s : Nat} (hs : s ∉ σ.registered.map (·.1)) :
-    ¬ stopIn σ.log s ∧ ¬ AS σ s ∧ ¬ FS σ s ∧ ¬ PS σ s ∧ ¬ QS σ s := by
-  have key : ∀ i, (s, i) ∉ σ.registered := fun i hm => hs (List.mem_map.mpr ⟨(s, i), hm, rfl⟩)
-  refine ⟨?_, ?_, ?_, ?_, ?_⟩
-  · rintro ⟨r, hr', _, e⟩
-    have := hr.log r hr'
-    rw [e] at this; exact key _ this
-  · intro ha
-    unfold AS at ha
-    cases hl : lookup σ.vol.sessions s with
-    | none => rw [hl] at ha; simp at ha
-    | some x => exact key _ (hr.sess s x hl)
-  · intro ha
-    unfold FS at ha
-    cases hl : lookup σ.dur.files s with
-    | none => rw [hl] at ha; simp at ha
-    | some x => exact key _ (hr.files s x hl)
-  · rintro ⟨p, hp, _, e⟩
-    have := hr.pend p hp
-    rw [e] at this; exact key _ this
-  · rintro ⟨ps, hps, p, hp, _, e⟩
-    have := hr.pfile ps hps p hp
-    rw [e] at this; exact key _ this
-
-theorem nds_of_nowhere {σ : State} {s : Nat}
-    (h : ¬ stopIn σ.log s ∧ ¬ AS σ s ∧ ¬ FS σ s ∧ ¬ PS σ s ∧ ¬ QS σ s) : NDs σ s := by
-  obtain ⟨h1, h2, h3, h4, h5⟩ := h
-  refine ⟨?_, ?_, ?_, ?_, ?_, ?_, ?_, ?_, ?_, ?_⟩
-  · rw [stopCount_zero_iff.mpr h1]; omega
-  · intro p hp _ _ hst _; exact absurd ⟨p, hp, hst⟩ h4
-  · intro ps hps p hp _ _ hst _; exact absurd ⟨ps, hps, p, hp, hst⟩ h5
-  · exact fun hl => absurd hl h1
-  · exact fun hl => absurd hl h1
-  · exact fun hl => absurd hl h1
-  · exact fun hl => absurd hl h1
-  · exact fun hp => absurd hp h4
-  · exact fun hp => absurd hp h4
-  · exact fun ha => absurd ha h2
-
-theorem nd_init (c : Cfg) : ND (init c) := by
-  refine ⟨?_, by simp [init, isRec], by simp [init, recInfo], by simp [init, pendingDrain]⟩
-  intro s _
-  apply nds_of_nowhere
-  refine ⟨?_, ?_, ?_, ?_, ?_⟩
-  · rintro ⟨r, hr, _⟩; simp [init] at hr
-  · simp [AS, init]
-  · simp [FS, init]
-  · rintro ⟨p, hp, _⟩; simp [init] at hp
-  · rintro ⟨ps, hps, _⟩; simp [init] at hps
-
-/-- steps that change only bookkeeping fields -/
-theorem nd_same {σ σ' : State} (h : ND σ) (ht : σ'.tainted = σ.tainted) (hl : σ'.log = σ.log)
-    (hv : σ'.vol = σ.vol) (hd : σ'.dur = σ.dur) : ND σ' := by
-  apply nd_sub h ht (fun s => by rw [hl]) (fun s => by rw [hl])
-    (fun s hs => by unfold AS at hs ⊢; rw [hv] at hs; exact hs)
-    (fun s hs => by unfold FS at hs ⊢; rw [hd] at hs; exact hs)
-    (fun p hp => by rw [hv] at hp; exact Or.inl ⟨p, hp, rfl, rfl⟩)
-    (Or.inl (by rw [hd]))
-  · intro s _ _ hc; rw [hv]; exact Or.inl hc
-  · intro s b hc; rw [hv]; exact Or.inl hc
-  · intro s hc; rw [hv]; exact Or.inl hc
-  · rw [hv]; exact h.r1
-  · intro recd cur hr
-    rw [hv] at hr
-    obtain ⟨a1, a2⟩ := h.r2 recd cur hr
-    refine ⟨fun x hx hf => a1 x hx (by unfold FS at hf ⊢; rw [hd] at hf; exact hf), ?_⟩
-    rw [hv]; exact a2
-  · rw [hv]; exact h.dr
-
-
-theorem pc_none_of_not_isSome {σ : State} (h : ¬ σ.vol.pc.isSome = true) : σ.vol.pc = none := by
-  cases e : σ.vol.pc with
-  | none => rfl
-  | some f => rw [e] at h; simp at h
-
-theorem nd_step {σ : State} (h : ND σ) (hr : Reg σ) (hi : IdleDown σ) (op : Op)
-    (hfresh : ((step σ op).registered.map (·.1)).Nodup) : ND (step σ op) := by
-  cases op with
-  | tick a => exact nd_tick h a
-  | ctr s i o => exact nd_same h rfl rfl rfl rfl
-  | crash =>
-    refine ⟨?_, by simp [step, crash, isRec], by simp [step, crash, recInfo], by simp [step, crash, pendingDrain]⟩
-    intro s hs
-    have hs' : s ∉ σ.registered.map (·.1) := by
-      intro hm; apply hs
-      simp only [step, crash, List.mem_append]
-      exact Or.inl hm
-    obtain ⟨h1, _, h3, _, h5⟩ := nowhere_of_unregistered hr hs'
-    apply nds_of_nowhere
-    refine ⟨h1, ?_, h3, ?_, h5⟩
-    · simp [AS, step, crash]
-    · rintro ⟨p, hp, _⟩; simp [step, crash] at hp
-  | restart order =>
-    simp only [step]
-    split
-    · exact nd_same h rfl rfl rfl rfl
-    · rename_i hup
-      have hpc : σ.vol.pc = none := hi (by simpa using hup)
-      have hne : noExcuse σ.vol.pc := by rw [hpc]; exact noExcuse_none
-      unfold callRestart
+    · apply nd_genP (σ' := setPpc σ _) h hnr rfl rfl rfl rfl (fun _ _ hd => hd) (fun s hs => hs)
+        (fun p hp => ⟨p, hp, rfl, rfl⟩) rfl
+      intro s _ _ hc; exact absurd hc (noClP s)
+    · rename_i p hp
+      have hm := findP_mem hp
+      have hid := findP_id hp
       dsimp only
       split
-      · apply nd_sub h
-        · rfl
-        · exact fun _ => Iff.rfl
-        · exact fun _ => rfl
-        · intro s hs; simp [AS, setPc, begin] at hs
-        · exact fun s hs => hs
-        · intro p hp; simp [setPc, begin] at hp
-        · exact Or.inl rfl
-        · intro s _ _ hc; exact absurd hc (hne.1 s)
-        · intro s b hc; exact absurd hc (hne.2.1 s b)
-        · intro s hc; exact absurd hc (hne.2.2 s)
-        · intro _; rfl
-        · intro recd cur hr'
-          simp only [setPc] at hr'
-          rw [recInfo_nextRec] at hr'
-          simp only [Option.some.injEq, Prod.mk.injEq] at hr'
-          obtain ⟨e1, e2⟩ := hr'
-          subst e1; subst e2
-          refine ⟨by simp, ?_⟩
-          intro p hp; simp [setPc, begin] at hp
-        · intro l hl; simp only [setPc] at hl; rw [pendingDrain_nextRec] at hl; simp at hl
-      · apply nd_sub h
-        · rfl
-        · exact fun _ => Iff.rfl
-        · exact fun _ => rfl
-        · intro s hs; simp [AS, begin] at hs
-        · exact fun s hs => hs
-        · intro p hp; simp [begin] at hp
-        · exact Or.inl rfl
-        · intro s _ _ hc; exact absurd hc (hne.1 s)
-        · intro s b hc; exact absurd hc (hne.2.1 s b)
-        · intro s hc; exact absurd hc (hne.2.2 s)
-        · intro hr'; simp [begin, isRec] at hr'
-        · intro recd cur hr'; simp [begin, recInfo] at hr'
-        · intro l hl; simp [begin, pendingDrain] at hl
-  | start s ident =>
-    simp only [step] at hfresh ⊢
-    split
-    · exact nd_same h rfl rfl rfl rfl
-    · split
-      · exact nd_same h rfl rfl rfl rfl
-      · rename_i hup hbusy
-        have hpc : σ.vol.pc = none := pc_none_of_not_isSome hbusy
-        have hne : noExcuse σ.vol.pc := by rw [hpc]; exact noExcuse_none
-        rw [if_neg hup, if_neg hbusy] at hfresh
-        unfold callStart at hfresh ⊢
+      · -- acknowledged
         split
-        · exact nd_same h rfl rfl rfl rfl
-        · rename_i hnew
-          rw [if_neg hnew] at hfresh
-          have hs' : s ∉ σ.registered.map (·.1) := by
-            simp only [setPc, begin, List.map_cons, List.nodup_cons] at hfresh
-            exact hfresh.1
-          obtain ⟨n1, _, _, n4, n5⟩ := nowhere_of_unregistered hr hs'
-          apply nd_plain h hne
-          · exact quiet_startSend s
+        · rename_i hk
+          have hk' : p.req.kind = .stop := by simpa using hk
+          have hPS : PS σ p.req.sid := ⟨p, hm, hk', rfl⟩
+          have noStop : p.req.sid ∉ σ.tainted → ¬ ackd σ p.req.sid := fun ht hl => (h.per _ ht).d hl hPS
+          apply nd_ack h p.req.sid
           · rfl
-          · exact fun _ => Iff.rfl
-          · exact fun _ => rfl
-          · intro k _ hk
-            unfold AS at hk
-            simp only [setPc, begin, lookup_insert] at hk
-            split at hk
-            · rename_i e; subst e
-              exact Or.inr ⟨n1, n4, n5⟩
-            · exact Or.inl hk
-          · exact fun k _ hk => Or.inl hk
-          · intro p hp; exact Or.inl ⟨p, hp, rfl, rfl⟩
-          · intro k _ hps p hp q _ h1 _; exact absurd ⟨p, hp, h1⟩ hps
+          · exact acked_accept_stop (σ := notePOrd σ id) hk'
+          · exact dup_after_accept (σ := notePOrd σ id) (r := p.req) (b := true) noStop
+          · exact fun s hs => hs
+          · exact fun s hs => hs
+          · intro q hq; exact ⟨q, mem_eraseP hq, rfl, rfl⟩
           · rfl
-  | interim s =>
-    simp only [step]
-    split
-    · exact nd_same h rfl rfl rfl rfl
-    · split
-      · exact nd_same h rfl rfl rfl rfl
-      · rename_i hup hbusy
-        have hpc : σ.vol.pc = none := pc_none_of_not_isSome hbusy
-        have hne : noExcuse σ.vol.pc := by rw [hpc]; exact noExcuse_none
-        unfold callInterim
-        split
-        · exact nd_same h rfl rfl rfl rfl
-        · split
-          · exact nd_same h rfl rfl rfl rfl
-          · exact nd_sub_plain (σ' := setPc (begin σ .ok) (some (.intSend s))) h hne (quiet_intSend s) rfl
-              (fun _ => Iff.rfl) (fun _ => rfl) (fun k hk => hk) (fun k hk => hk)
-              (fun p hp => Or.inl ⟨p, hp, rfl, rfl⟩) (Or.inl rfl)
-  | stop s cause =>
-    simp only [step]
-    split
-    · exact nd_same h rfl rfl rfl rfl
-    · split
-      · exact nd_same h rfl rfl rfl rfl
-      · rename_i hup hbusy
-        have hpc : σ.vol.pc = none := pc_none_of_not_isSome hbusy
-        have hne : noExcuse σ.vol.pc := by rw [hpc]; exact noExcuse_none
-        unfold callStop
-        split
-        · exact nd_same h rfl rfl rfl rfl
-        · rename_i x hx
-          apply nd_sub_plain h hne
-          · exact quiet_stopPersist s
+          · intro ht ⟨q, hq, hst⟩
+            have hq' : q ∈ eraseP σ.vol.pending id := hq
+            have h1 := (h.per _ ht).b q (mem_eraseP hq') p hm hst ⟨hk', rfl⟩
+            have h2 : q.id ≠ id := by
+              have := (List.mem_filter.mp hq').2
+              simpa using this
+            exact h2 (by rw [h1, hid])
+          · intro _ _; exact Or.inr rfl
+          · intro ht ha; exact (h.per _ ht).h hPS ha
+          · intro ht hq; exact (h.per _ ht).i hPS hq
+          · intro s _ _ hc
+            rcases hc with h1 | h1
+            · exact Or.inl (Or.inl h1)
+            · exact absurd h1 (noClP s)
+          · intro s hc; exact Or.inl hc
+          · intro s hc; exact Or.inl hc
+          · intro hr; exact absurd hr hnr
+          · intro recd cur hr; exact absurd (isRec_of_recInfo hr) hnr
+          · exact h.dr
+          · intro hr; exact absurd hr hnr
+        · rename_i hk
+          have hk' : p.req.kind ≠ .stop := by simpa using hk
+          have hn := dup_accept_nonstop (σ := notePOrd σ id) true hk'
+          apply nd_genP h hnr
           · rfl
-          · exact fun _ => Iff.rfl
-          · exact fun _ => rfl
-          · intro k hk
-            unfold AS at hk ⊢
-            simp only [setPc, begin, lookup_insert] at hk
-            split at hk
-            · rename_i e; subst e; rw [hx]; rfl
-            · exact hk
-          · exact fun k hk => hk
-          · intro p hp; exact Or.inl ⟨p, hp, rfl, rfl⟩
-          · exact Or.inl rfl
-  | deq =>
-    simp only [step]
-    split
-    · exact nd_same h rfl rfl rfl rfl
-    · split
-      · exact nd_same h rfl rfl rfl rfl
-      · rename_i hup hbusy
-        have hpc : σ.vol.pc = none := pc_none_of_not_isSome hbusy
-        have hne : noExcuse σ.vol.pc := by rw [hpc]; exact noExcuse_none
-        unfold callDeq
-        split
-        · exact nd_same h rfl rfl rfl rfl
-        · apply nd_sub_plain h hne
-          · exact quiet_nextProc _ _
           · rfl
-          · exact fun _ => Iff.rfl
-          · exact fun _ => rfl
-          · exact fun k hk => hk
-          · exact fun k hk => hk
-          · intro p hp; exact Or.inl ⟨p, hp, rfl, rfl⟩
-          · exact Or.inl rfl
-  | retry order =>
-    simp only [step]
-    split
-    · exact nd_same h rfl rfl rfl rfl
-    · split
-      · exact nd_same h rfl rfl rfl rfl
-      · rename_i hup hbusy
-        have hpc : σ.vol.pc = none := pc_none_of_not_isSome hbusy
-        have hne : noExcuse σ.vol.pc := by rw [hpc]; exact noExcuse_none
-        unfold callRetry
-        apply nd_sub_plain h hne
-        · exact quiet_nextProc _ _
-        · rfl
-        · exact fun _ => Iff.rfl
-        · exact fun _ => rfl
-        · exact fun k hk => hk
-        · exact fun k hk => hk
-        · intro p hp; exact Or.inl ⟨p, hp, rfl, rfl⟩
-        · exact Or.inl rfl
-  | shutdown order =>
-    simp only [step]
-    split
-    · exact nd_same h rfl rfl rfl rfl
-    · split
-      · exact nd_same h rfl rfl rfl rfl
-      · rename_i hup hbusy
-        have hpc : σ.vol.pc = none := pc_none_of_not_isSome hbusy
-        have hne : noExcuse σ.vol.pc := by rw [hpc]; exact noExcuse_none
-        unfold callShutdown
-        apply nd_sub h
-        · rfl
-        · exact fun _ => Iff.rfl
-        · exact fun _ => rfl
-        · exact fun k hk => hk
-        · exact fun k hk => hk
-        · intro p hp; exact Or.inl ⟨p, hp, rfl, rfl⟩
-        · exact Or.inl rfl
-        · intro k _ _ hc; exact absurd hc (hne.1 k)
-        · intro k b hc; exact absurd hc (hne.2.1 k b)
-        · intro k hc; exact absurd hc (hne.2.2 k)
-        · intro hr'
-          simp only [setPc, begin] at hr'
-          cases hn : normalize order (keys σ.vol.sessions) <;> rw [hn] at hr' <;> simp [nextDrain, isRec] at hr'
-        · intro recd cur hr'
-          simp only [setPc, begin] at hr'
-          rw [recInfo_nextDrain] at hr'; simp at hr'
-        · intro l hl
-          simp only [setPc, begin] at hl
-          rw [pendingDrain_nextDrain] at hl
-          simp only [Option.some.injEq] at hl
-          subst hl
-          exact nodup_normalize _ _
-
-
-theorem registered_step_eq (σ : State) (op : Op) :
-    (step σ op).registered = σ.registered ∨ ∃ x, (step σ op).registered = x :: σ.registered := by
-  cases op with
-  | tick a => left; simp only [step]; exact tick_registered σ a
-  | crash => exact Or.inl rfl
-  | ctr s i o => exact Or.inl rfl
-  | restart order =>
-    left
-    simp only [step]
-    split
+          · rfl
+          · exact hn.2
+          · intro s _ hd; exact hn.1 ▸ hd
+          · exact fun s hs => hs
+          · intro q hq; exact ⟨q, mem_eraseP hq, rfl, rfl⟩
+          · rfl
+          · intro s _ _ hc; exact absurd hc (noClP s)
+      · exact nd_procFail (τ := notePOrd σ id) h hnr p id rest noClP ⟨rfl, rfl, rfl, rfl, rfl, rfl⟩
+          (fun _ _ hd => hd)
+      · -- accepted by the server, the client saw a failure
+        by_cases hk : p.req.kind = .stop
+        · have hPS : PS σ p.req.sid := ⟨p, hm, hk, rfl⟩
+          have noStop : p.req.sid ∉ σ.tainted → ¬ ackd σ p.req.sid := fun ht hl => (h.per _ ht).d hl hPS
+          obtain ⟨l1, l2⟩ := lost_state (σ := notePOrd σ id) p.req noStop
+          exact nd_procFail (τ := accept (notePOrd σ id) p.req false) h hnr p id rest noClP
+            ⟨rfl, rfl, rfl, l1.2.1, rfl, rfl⟩ l2
+        · have hn := dup_accept_nonstop (σ := notePOrd σ id) false hk
+          exact nd_procFail (τ := accept (notePOrd σ id) p.req false) h hnr p id rest noClP
+            ⟨rfl, rfl, rfl, hn.2, rfl, rfl⟩ (fun s _ hd => hn.1 ▸ hd)
+  · -- procRemove
+    rename_i k rest hpp
+    have hnr : ¬ isRec σ.vol.pc := by
+      intro hr
+      have := h.rp hr
+      rw [hpp] at this; simp at this
+    unfold tickProcRemove
+    apply nd_genP (σ' := setPpc (removeFile σ k) (nextProc σ.vol.pending rest)) h hnr rfl rfl rfl rfl
+      (fun _ _ hd => hd)
+    · intro s hs
+      unfold FS at hs ⊢
+      simp only [setPpc, removeFile, lookup_erase] at hs
+      split at hs
+      · simp at hs
+      · exact hs
+    · exact fun p hp => ⟨p, hp, rfl, rfl⟩
     · rfl
-    · unfold callRestart; dsimp only; split <;> rfl
-  | start s ident =>
-    simp only [step]
-    split
-    · exact Or.inl rfl
-    · split
-      · exact Or.inl rfl
-      · unfold callStart
-        split
-        · exact Or.inl rfl
-        · exact Or.inr ⟨(s, ident), rfl⟩
-  | interim s =>
-    left
-    simp only [step]
-    split
-    · rfl
-    · split
-      · rfl
-      · unfold callInterim
-        split
-        · rfl
-        · split <;> rfl
-  | stop s cause =>
-    left
-    simp only [step]
-    split
-    · rfl
-    · split
-      · rfl
-      · unfold callStop
-        split <;> rfl
-  | deq =>
-    left
-    simp only [step]
-    split
-    · rfl
-    · split
-      · rfl
-      · unfold callDeq
-        split <;> rfl
-  | retry order =>
-    left
-    simp only [step]
-    split
-    · rfl
-    · split <;> rfl
-  | shutdown order =>
-    left
-    simp only [step]
-    split
-    · rfl
-    · split <;> rfl
-
-theorem fresh_of_step {σ : State} {op : Op} (h : ((step σ op).registered.map (·.1)).Nodup) :
-    (σ.registered.map (·.1)).Nodup := by
-  rcases registered_step_eq σ op with e | ⟨x, e⟩
-  · rw [e] at h; exact h
-  · rw [e] at h
-    simp only [List.map_cons, List.nodup_cons] at h
-    exact h.2
-
-theorem fresh_of_run {σ : State} {ops : List Op} (h : ((run σ ops).registered.map (·.1)).Nodup) :
-    (σ.registered.map (·.1)).Nodup := by
-  induction ops generalizing σ with
-  | nil => exact h
-  | cons op ops ih => exact fresh_of_step (ih h)
-
-theorem nd_run {σ : State} (h : ND σ) (hr : Reg σ) (hi : IdleDown σ) (ops : List Op)
-    (hfresh : ((run σ ops).registered.map (·.1)).Nodup) : ND (run σ ops) := by
-  induction ops generalizing σ with
-  | nil => exact h
-  | cons op ops ih =>
-    exact ih (nd_step h hr hi op (fresh_of_run hfresh)) (reg_step hr op) (idleDown_step hi op) hfresh
-
-/-- `tainted` grows only at a crash, by the sessions registered so far -/
-theorem tainted_step (σ : State) (op : Op) (s : Nat) (h : s ∈ (step σ op).tainted) :
-    s ∈ σ.tainted ∨ (op = .crash ∧ s ∈ σ.registered.map (·.1)) := by
-  by_cases hc : op = .crash
-  · subst hc
-    simp only [step, crash, List.mem_append] at h
-    rcases h with h | h
-    · exact Or.inr ⟨rfl, h⟩
-    · exact Or.inl h
-  · left
-    by_cases ht : ∃ a, op = .tick a
-    · obtain ⟨a, e⟩ := ht
-      subst e
-      simp only [step] at h
-      unfold tick at h
-      split at h
-      · exact h
-      · unfold tickStartSend send at h; revert h; repeat' (first | exact id | split)
-      · unfold tickStartPersist persistSession at h; revert h; repeat' (first | exact id | split)
-      · unfold tickStopPersist persistSession at h; revert h; repeat' (first | exact id | split)
-      · unfold tickStopSend send at h; revert h; repeat' (first | exact id | split)
-      · exact h
-      · unfold tickStopRemove at h; revert h; repeat' (first | exact id | split)
-      · unfold tickIntSend at h; revert h; repeat' (first | exact id | split)
-      · unfold tickProcSend at h
-        split at h
-        · exact h
-        · dsimp only at h
-          revert h; repeat' (first | exact id | split)
-      · unfold tickProcRemove at h; revert h; repeat' (first | exact id | split)
-      · unfold tickDrainSend at h; revert h; repeat' (first | exact id | split)
-      · exact h
-      · exact h
-      · unfold tickRecSend send at h; revert h; repeat' (first | exact id | split)
-      · exact h
-      · unfold tickRecLoad at h
-        split at h
-        · exact h
-        · simp only [setPc] at h
-          rw [(loadPending_spec _ _ _).tainted] at h; exact h
-      · exact h
-    · have e : (step σ op).tainted = σ.tainted := by
-        cases op with
-        | crash => exact absurd rfl hc
-        | tick a => exact absurd ⟨a, rfl⟩ ht
-        | ctr s i o => rfl
-        | restart order =>
-          simp only [step]
-          split
-          · rfl
-          · unfold callRestart; dsimp only; split <;> rfl
-        | start s ident =>
-          simp only [step]
-          split
-          · rfl
-          · split
-            · rfl
-            · unfold callStart
-              split <;> rfl
-        | interim s =>
-          simp only [step]
-          split
-          · rfl
-          · split
-            · rfl
-            · unfold callInterim
-              split
-              · rfl
-              · split <;> rfl
-        | stop s cause =>
-          simp only [step]
-          split
-          · rfl
-          · split
-            · rfl
-            · unfold callStop
-              split <;> rfl
-        | deq =>
-          simp only [step]
-          split
-          · rfl
-          · split
-            · rfl
-            · unfold callDeq
-              split <;> rfl
-        | retry order =>
-          simp only [step]
-          split
-          · rfl
-          · split <;> rfl
-        | shutdown order =>
-          simp only [step]
-          split
-          · rfl
-          · split <;> rfl
-      rw [e] at h; exact h
-
-
-theorem tainted_empty_run (σ : State) (ops : List Op) (hnc : Op.crash ∉ ops) (h0 : σ.tainted = []) :
-    (run σ ops).tainted = [] := by
-  induction ops generalizing σ with
-  | nil => exact h0
-  | cons op ops ih =>
-    apply ih _ (fun hm => hnc (List.mem_cons_of_mem _ hm))
-    apply List.eq_nil_iff_forall_not_mem.mpr
-    intro x hx
-    rcases tainted_step σ op x hx with h1 | ⟨h1, _⟩
-    · rw [h0] at h1; simp at h1
-    · exact hnc (by rw [h1]; exact List.mem_cons_self)
+    · intro s _ _ hc
+      rw [hpp] at hc
+      simp only [cleans] at hc
+      subst hc
+      right; unfold FS; simp [setPpc, removeFile]
+  · exact h
 
 end Bng.Acct
